@@ -2,7 +2,9 @@
 exactly the pixels whose centre satisfies the documented radial inequality."""
 from __future__ import annotations
 
+import hashlib
 import math
+import random
 from fractions import Fraction as F
 
 import numpy as np
@@ -13,9 +15,216 @@ from common import PropertyCheck, Skip, load_autoarray, mask_json, q, qlist
 BAND = F(1, 10**9)          # the property's own exclusion band (relative, floor 1)
 HUG = F(1, 1 << 20)         # boundary-hugging offset: threshold * (1 +- 2^-20)
 CTORS = ("circular", "annular", "anti_annular", "elliptical", "elliptical_annular")
+FBAND = 1.0e-9              # BAND as a double (vectorised oracles of the large stream)
+LARGE_MODEL_MAX = 256       # size targets up to this many pixels go through the ordinary (model-compared) families
+LARGE_HINT_MAX = 70000      # hints above this are not reachable in pure Python within the budget
+GRID_OBS = ("from_mask", "unmasked", "all_false", "uniform", "util")
+GEOM_GROUPS = ("scalars", "grid", "centre_roundtrip", "empty", "points", "pixels")
+GRID1D_OBS = ("extent", "uniform", "pix", "scaled", "grid")
+SHAPE_OBS = ("mask", "util_mask")
+
+
+class NPArr:
+    """a big implementation output of an oracle-only (large) case, kept as an ndarray for the vectorised
+    oracle; shows as a one-line summary wherever an observation is printed or written to a replay."""
+    __slots__ = ("a",)
+
+    def __init__(self, a):
+        self.a = np.array(a)
+
+    def __repr__(self):
+        a = self.a
+        return (f"<ndarray shape={a.shape} dtype={a.dtype} sha1={hashlib.sha1(a.tobytes()).hexdigest()[:12]} "
+                f"head={a.ravel()[:6].tolist()}>")
+
+    __str__ = __repr__
+
+
+def _rs(seed):
+    return np.random.RandomState(int(seed) % (1 << 32))
+
+
+# A history must be judged on ITS OWN steps only: module-level state left behind by earlier cases of the run (or by
+# an earlier attempt of the shrinker) would make a failure irreproducible in a replay.  Every history therefore runs
+# in a fresh fork of a pristine server process that has imported the library and never called it.
+_ISO_SRC = r"""
+import json, os, signal, sys
+sys.path.insert(0, sys.argv[1])
+import common
+aa = common.load_autoarray()
+import importlib
+chk = importlib.import_module("props.c02").CHECK
+try:  # parse the pinned configuration files once here (no library call), not again in every fork
+    from autoconf import conf
+    conf.instance["general"]["structures"]["native_binned_only"]
+    conf.instance["general"]["grid"]["remove_projected_centre"]
+except Exception:
+    pass
+sys.stdout.write("ready\n"); sys.stdout.flush()
+for line in sys.stdin:
+    line = line.strip()
+    if not line:
+        continue
+    r, w = os.pipe()
+    pid = os.fork()
+    if pid == 0:
+        os.close(r)
+        signal.alarm(120)
+        os.dup2(os.open(os.devnull, os.O_WRONLY), 1)
+        try:
+            data = json.dumps({"ok": chk._impl_history(aa, json.loads(line))})
+        except BaseException as e:
+            data = json.dumps({"exc": type(e).__name__, "msg": str(e)[:300]})
+        b = data.encode()
+        while b:
+            b = b[os.write(w, b):]
+        os._exit(0)
+    os.close(w)
+    chunks = []
+    while True:
+        c = os.read(r, 1 << 16)
+        if not c:
+            break
+        chunks.append(c)
+    os.close(r)
+    os.waitpid(pid, 0)
+    sys.stdout.write((b"".join(chunks).decode() or '{"exc": "ChildCrashed", "msg": "no output"}') + "\n")
+    sys.stdout.flush()
+"""
+_iso_proc = None
+
+
+def isolated_history(case):
+    """observation of a history case from a fresh fork of the pristine server, or None when no server can be had
+    (the caller then runs it in-process)"""
+    global _iso_proc
+    import atexit
+    import json
+    import os
+    import subprocess
+    import sys
+
+    if os.environ.get("C02_NO_ISOLATION"):
+        return None
+    try:
+        if _iso_proc is None or _iso_proc.poll() is not None:
+            harness = os.path.dirname(os.path.dirname(os.path.abspath(__file__)))
+            _iso_proc = subprocess.Popen([sys.executable, "-B", "-c", _ISO_SRC, harness], stdin=subprocess.PIPE,
+                                         stdout=subprocess.PIPE, stderr=subprocess.DEVNULL, text=True, bufsize=1)
+            atexit.register(lambda p=_iso_proc: p.poll() is None and p.kill())
+            if _iso_proc.stdout.readline().strip() != "ready":
+                raise RuntimeError("isolation server did not start")
+        _iso_proc.stdin.write(json.dumps(case, default=str) + "\n")
+        _iso_proc.stdin.flush()
+        r = json.loads(_iso_proc.stdout.readline())
+    except Exception:
+        try:
+            _iso_proc and _iso_proc.kill()
+        except Exception:
+            pass
+        _iso_proc = None
+        return None
+    return r["ok"] if "ok" in r else {"err": r.get("exc", "?"), "msg": r.get("msg", "")}
+
+
+def factor_pairs(n):
+    """non-square factorisations (H, W), H < W, H*W == n, aspect at most ~8, most balanced first"""
+    out = []
+    d = int(math.isqrt(n))
+    while d >= 2 and d * d * 8 >= n:
+        if n % d == 0 and d != n // d:
+            out.append((d, n // d))
+        d -= 1
+    return out
+
+
+def large_mask(g):
+    """bool ndarray (H, W), True = masked, of a mask recipe {"h","w","seed","style","unmasked"} (replays stay
+    small and deterministic: numpy's legacy RandomState stream is frozen)."""
+    h, w = g["h"], g["w"]
+    n = h * w
+    rs = _rs(g["seed"])
+    style = g.get("style", "random")
+    k = g.get("unmasked")
+    if style == "all_false":
+        return np.zeros((h, w), dtype=bool)
+    if style == "all_masked":
+        return np.ones((h, w), dtype=bool)
+    k = n // 2 if k is None else max(0, min(n, int(k)))
+    m = np.ones(n, dtype=bool)
+    if style == "blob":  # the k pixels nearest (anisotropically) to an off-centre point: compact, touches the edge
+        cy, cx = rs.uniform(0, h), rs.uniform(0, w)
+        ii, jj = np.divmod(np.arange(n), w)
+        d = (ii - cy) ** 2 * rs.choice([0.5, 1.0, 3.0]) + (jj - cx) ** 2 + rs.uniform(0, 1e-6, n)
+        m[np.argsort(d, kind="stable")[:k]] = False
+    else:
+        m[rs.permutation(n)[:k]] = False
+    return m.reshape(h, w)
+
+
+def large_points(case):
+    """(points (N,2) float64, mode) of a geometry case's point recipe: every point strictly inside the extent,
+    a quarter hugging a pixel boundary at 2^-20 pixel on either side, built so that the doubles are exact."""
+    H, W = case["shape"]
+    sy, sx = (float(F(v)) for v in case["scales"])
+    oy, ox = (float(F(v)) for v in case["origin"])
+    g = case["points_gen"]
+    n, mode = int(g["n"]), g.get("mode", "frac")
+    rs = _rs(g["seed"])
+    ymax, ymin, xmin, xmax = oy + H * sy / 2, oy - H * sy / 2, ox - W * sx / 2, ox + W * sx / 2
+    if mode == "int":
+        ylo, yhi = math.floor(ymin) + 1, math.ceil(ymax) - 1
+        xlo, xhi = math.floor(xmin) + 1, math.ceil(xmax) - 1
+        if ylo <= yhi and xlo <= xhi:
+            return np.stack([rs.randint(ylo, yhi + 1, n), rs.randint(xlo, xhi + 1, n)], axis=1).astype(float), "int"
+    i, j = rs.randint(0, H, n), rs.randint(0, W, n)
+    one = 1 << 20
+    fy, fx = rs.randint(1, 256, n) * 4096, rs.randint(1, 256, n) * 4096
+    hy, hx = rs.randint(0, 8, n), rs.randint(0, 8, n)
+    fy = np.where(hy == 0, 1, np.where(hy == 1, one - 1, fy))
+    fx = np.where(hx == 0, 1, np.where(hx == 1, one - 1, fx))
+    ty = i + fy / one
+    tx = j + fx / one
+    return np.stack([ymax - ty * sy, xmin + tx * sx], axis=1), "frac"
+
+
+def large_pixels(case):
+    """(N,2) float64 pixel coordinates (eighths, a little outside the frame too) of a pixel recipe"""
+    H, W = case["shape"]
+    g = case["pixels_gen"]
+    rs = _rs(g["seed"])
+    n = int(g["n"])
+    if g.get("mode") == "int":
+        return np.stack([rs.randint(-2, H + 3, n), rs.randint(-2, W + 3, n)], axis=1).astype(float)
+    return np.stack([rs.randint(-16, (H + 2) * 8 + 1, n), rs.randint(-16, (W + 2) * 8 + 1, n)], axis=1) / 8.0
+
+
+def large_points_1d(case):
+    """(points, pixels) as Fractions for a large 1-D case: a small seeded sample (the 1-D conversions are scalar
+    functions; the loops of the 1-D code run over the cells, not over query points)"""
+    n = case["bits_gen"]["n"]
+    s, o = F(case["scale"]), F(case["origin"])
+    r = random.Random(case["bits_gen"]["seed"] + 11)
+    xmin = o - n * s / 2
+    pts = [xmin + (r.randrange(n) + F(r.randint(1, 255), 256)) * s for _ in range(32)]
+    pts += [xmin + (b + sg * HUG) * s for b in (0, 1, n // 2, n - 1, n) for sg in (-1, 1) if 0 < b + sg * HUG < n]
+    pix = [F(r.randint(-8, (n + 1) * 8), 8) for _ in range(8)] + [F(0), F(n - 1)]
+    return pts, pix
+
+
+def fclose(a, b):
+    """vectorised `_close`: |a-b| <= 1e-9 max(1,|a|,|b|)"""
+    a, b = np.asarray(a, dtype=float), np.asarray(b, dtype=float)
+    return np.abs(a - b) <= FBAND * np.maximum(1.0, np.maximum(np.abs(a), np.abs(b)))
 
 
 def fr(x) -> F:
+    if isinstance(x, str):  # "p/q" of common.q (reduced): much faster than Fraction's regex parser
+        p_, _, q_ = x.partition("/")
+        try:
+            return F(int(p_), int(q_)) if q_ else F(int(p_))
+        except ValueError:
+            return F(x)
     return F(x)
 
 
@@ -115,6 +324,9 @@ def in_band(case, pt) -> bool:
 class C02(PropertyCheck):
     pid = "C02"
     title = "pixel <-> scaled coordinate maps and shape masks"
+    # escalated quick runs (changed modelled function / new size constant): the extra thorough-budget cases are cut
+    # after escalation_budget_s/2 of implementation time; their oracle + comparison costs about as much again
+    escalation_budget_s = 120
     generated_modules = ["Geometry"]  # second tie: Python -> Lean translation + `rfl` against Model.Geometry
     rtol = F(1, 10**9)
     nontrivial_rule = (
@@ -122,7 +334,10 @@ class C02(PropertyCheck):
         "unequal dyadic origins, queried at all pixel centres, random interior points and points "
         "hugging every pixel boundary at 2^-20 of a pixel on both sides; shape-mask cases: radii / "
         "axes hugging actual pixel distances on both sides; a case is non-trivial when H*W >= 2 and, "
-        "for shape masks, the result has both masked and unmasked pixels; distinct = distinct inputs"
+        "for shape masks, the result has both masked and unmasked pixels; distinct = distinct inputs; "
+        "history cases (2-6 steps on reused objects, each step compared with the model / oracle of a fresh object in "
+        "that state, every history run in a fresh fork of a pristine process) count when they have >= 2 steps; "
+        "constant-directed large cases (only when the anchored source gained an integer constant) are oracle-only"
     )
     exhaustive_note = {
         "quick": "complete enumerations: every 1-D mask with n <= 6 cells; every shape (H,W) in 1..7 x 1..7 for "
@@ -132,6 +347,8 @@ class C02(PropertyCheck):
                     "for each case family, and within a geometry case every pixel centre and both sides of every "
                     "pixel boundary line; scales/origins/radii/angles are sampled, not enumerated",
     }
+    # loop ties (DESIGN §12): regenerated from the source on every run, tie theorems proved for all sizes
+    loop_tie_modules = ["LoopsShapes"]
     modelled_functions = [
         "autoarray/geometry/geometry_util.py:central_pixel_coordinates_1d_from",
         "autoarray/geometry/geometry_util.py:central_scaled_coordinate_1d_from",
@@ -345,14 +562,14 @@ class C02(PropertyCheck):
             return F(d) + F(rng.randint(-32, 32), 128)
         return F(rng.randint(0, 64), 8)
 
-    def _shape_case(self, rng, H, W, ctor, tag):
+    def _shape_case(self, rng, H, W, ctor, tag, centre_nonzero=False):
         sy, sx, oy, ox = self._scales_origin(rng, rng.randrange(3))
         integer = rng.random() < 0.2  # integer-valued parameters, passed as Python ints by some variants
         if integer:
             sy, sx = F(rng.choice([1, 2, 3])), F(rng.choice([1, 2, 3]))
             oy, ox = F(round(oy)), F(round(ox))
         # centre: inside the frame, unequal components, sometimes zero
-        if rng.random() < 0.25:
+        if rng.random() < 0.25 and not centre_nonzero:
             cy, cx = F(0), F(0)
         elif integer:
             cy, cx = F(rng.randint(-H, H)), F(rng.randint(-W, W))
@@ -361,6 +578,10 @@ class C02(PropertyCheck):
             cx = F(rng.randint(-W * 4, W * 4), 8) * sx
             if cy == cx:
                 cx += F(1, 8)
+        if centre_nonzero and (cy == 0 or cx == 0 or cy == -cx):
+            cy, cx = cy + F(3, 8) * sy, cx - F(5, 8) * sx
+            if cy == 0 or cx == 0 or cy == cx or cy == -cx:
+                cy, cx = cy + sy, cx - F(1, 4) * sx
         case = {"tag": f"{tag}_{ctor}", "kind": "shape", "ctor": ctor, "shape": [H, W],
                 "scales": qlist([sy, sx]), "origin": qlist([oy, ox]), "centre": qlist([cy, cx]),
                 "variant": self._variant(rng)}
@@ -407,12 +628,513 @@ class C02(PropertyCheck):
                          "outer_major": q(ro), "outer_axis_ratio": q(qo), "outer_phi": q(ao), "outer_cs": cso})
         return case
 
+    # ------------------------------------------------------------------ large stream (size-gated code paths)
+    def _large_frame(self, n, rng, above):
+        """a non-square frame with exactly n pixels when n has a usable factorisation, else the nearest such
+        count on the requested side of n (`above`: never below n; else never above n); last resort 1 x n"""
+        for d in range(0, 12):
+            m = n + d if above else n - d
+            if m < 2:
+                break
+            fp = factor_pairs(m)
+            if fp:
+                h, w = rng.choice(fp[:3])
+                return (h, w) if rng.random() < 0.5 else (w, h)
+        return (1, n) if rng.random() < 0.5 else (n, 1)
+
+    def _large_variant(self, rng, integer=False):
+        v = self._variant(rng, integer=integer)
+        v["mask_arg"] = "ndarray"
+        v["skip_util"] = rng.random() < 0.8
+        if not integer and v["vals"] in ("int64", "pyint"):
+            v["vals"] = rng.choice(["float64", "pylist"])
+        return v
+
+    def _large_cases_for_size(self, n, rng, above, per_axis):
+        """cases whose every size dimension (frame pixels, unmasked pixels, points of a grid, 1-D cells, one axis)
+        equals n, with the ingredients that make a wrong result visible"""
+        seed = lambda: rng.randrange(1 << 31)
+        if n <= LARGE_MODEL_MAX:  # small targets: ordinary families, compared with the Lean model as well
+            H, W = self._large_frame(n, rng, above)
+            yield self._geom_case(rng, H, W, rng.randrange(3), "large_small_geom")
+            yield self._grid_case(rng, H, W, "large_small_grid")
+            for ctor in CTORS:
+                yield self._shape_case(rng, H, W, ctor, "large_small_shape", centre_nonzero=rng.random() < 0.8)
+            yield self._grid1d_case(rng, n, "".join(rng.choice("01") for _ in range(n)))
+            h, w = rng.choice([(3, 5), (5, 3), (4, 7), (7, 2)])
+            c = self._geom_case(rng, h, w, 0, "large_small_points")
+            sy, sx, oy, ox = (F(x) for x in c["scales"] + c["origin"])
+            while len(c["points"]) < n:
+                ty, tx = F(rng.randint(1, h * 256 - 1), 256), F(rng.randint(1, w * 256 - 1), 256)
+                c["points"].append(qlist((oy + h * sy / 2 - ty * sy, ox - w * sx / 2 + tx * sx)))
+            c["points"] = c["points"][:n]
+            yield c
+            return
+        H, W = self._large_frame(n, rng, above)
+        so = lambda k=None: self._scales_origin(rng, rng.randrange(3) if k is None else k)
+        # (1) the five shape constructors on an H x W = n frame, off-centre
+        for ctor in CTORS:
+            c = self._shape_case(rng, H, W, ctor, "large_shape", centre_nonzero=rng.random() < 0.85)
+            c.update({"large": True, "variant": self._large_variant(rng)})
+            yield c
+        # (2) pixel-centre grids: n frame pixels (half unmasked / all unmasked), and exactly n UNMASKED pixels
+        sy, sx, oy, ox = so(0)
+        yield {"tag": "large_grid", "kind": "grid", "large": True, "scales": qlist([sy, sx]), "origin": qlist([oy, ox]),
+               "mask_gen": {"h": H, "w": W, "seed": seed(), "style": rng.choice(["random", "blob", "all_false"])},
+               "variant": self._large_variant(rng)}
+        H2, W2 = self._large_frame(n + n // 3 + rng.randint(1, 9), rng, True)
+        sy, sx, oy, ox = so()
+        yield {"tag": "large_grid_unmasked", "kind": "grid", "large": True, "scales": qlist([sy, sx]),
+               "origin": qlist([oy, ox]),
+               "mask_gen": {"h": H2, "w": W2, "seed": seed(), "style": rng.choice(["random", "blob"]), "unmasked": n},
+               "variant": self._large_variant(rng)}
+        # (3) geometry of an n-pixel frame (every pixel centre, extent, centre round trip) with a few hundred points
+        sy, sx, oy, ox = so(0)
+        integer = rng.random() < 0.25
+        yield {"tag": "large_geom_frame", "kind": "geom", "large": True, "shape": [H, W], "scales": qlist([sy, sx]),
+               "origin": qlist([oy, ox]),
+               "points_gen": {"n": 300, "seed": seed(), "mode": "int" if integer else "frac"},
+               "pixels_gen": {"n": 100, "seed": seed(), "mode": "int" if integer else "frac"},
+               "variant": self._large_variant(rng, integer)}
+        # (4) n points / n pixel coordinates through the grid conversions of a small non-square frame
+        h, w = rng.choice([(7, 11), (11, 7), (5, 16), (13, 4), (9, 10), (2, 31)])
+        sy, sx, oy, ox = so(0)
+        integer = rng.random() < 0.25
+        if integer:
+            sy, sx = F(rng.choice([2, 3])), F(rng.choice([3, 2, 1]))
+        yield {"tag": "large_geom_points", "kind": "geom", "large": True, "shape": [h, w], "scales": qlist([sy, sx]),
+               "origin": qlist([oy, ox]),
+               "points_gen": {"n": n, "seed": seed(), "mode": "int" if integer else "frac"},
+               "pixels_gen": {"n": n, "seed": seed(), "mode": "int" if integer else "frac"},
+               "variant": self._large_variant(rng, integer)}
+        # (5) 1-D: n cells, and exactly n unmasked cells
+        for cells, unm in ((n, None), (n + n // 3 + 1, n)):
+            yield {"tag": "large_grid1d", "kind": "grid1d", "large": True, "scale": q(rng.choice(gen.SCALES)),
+                   "origin": q(gen.dyadic(rng, -4, 4, 3)),
+                   "bits_gen": {"n": cells, "seed": seed(), "style": "random", "unmasked": unm},
+                   "variant": self._large_variant(rng)}
+        # (6) one axis of length n (a gate on shape_native[0] or [1] alone)
+        if per_axis:
+            for (h, w) in ((n, 2), (3, n)):
+                c = self._shape_case(rng, h, w, rng.choice(CTORS), "large_axis_shape", centre_nonzero=True)
+                c.update({"large": True, "variant": self._large_variant(rng)})
+                yield c
+                sy, sx, oy, ox = so(0)
+                yield {"tag": "large_axis_grid", "kind": "grid", "large": True, "scales": qlist([sy, sx]),
+                       "origin": qlist([oy, ox]),
+                       "mask_gen": {"h": h, "w": w, "seed": seed(), "style": rng.choice(["random", "all_false"])},
+                       "variant": self._large_variant(rng)}
+                yield {"tag": "large_axis_geom", "kind": "geom", "large": True, "shape": [h, w],
+                       "scales": qlist([sy, sx]), "origin": qlist([oy, ox]),
+                       "points_gen": {"n": 200, "seed": seed(), "mode": "frac"},
+                       "pixels_gen": {"n": 50, "seed": seed(), "mode": "frac"}, "variant": self._large_variant(rng)}
+
+    def _large_for_hint(self, c, rng, level):
+        """level 2: all five sizes (+ single-axis frames); 1: below / above / non-multiple; 0: one size above"""
+        sizes = {2: [(c + 1, True), (c + c // 3 + 1, True), (c, True), (2 * c + 1, True), (c - 1, False)],
+                 1: [(c + 1, True), (c + c // 3 + 1, True), (c - 1, False)],
+                 0: [(c + c // 3 + 1, True)]}[level]
+        for rep in range(2 if c <= 4000 else 1):
+            for n, above in sizes:
+                if n >= 2:
+                    yield from self._large_cases_for_size(n, rng, above, per_axis=(level == 2 and n in (c - 1, c + 1)))
+
+    def generate_large(self, hints, rng):
+        """constant-directed cases (DESIGN §13): for every new integer constant c of the anchored source, frames /
+        masks / point lists / 1-D masks whose size is c-1, c, c+1, c + c//3 + 1 and 2c+1.  Targets above
+        LARGE_MODEL_MAX pixels are oracle-only (`large`: no model request; the vectorised oracle judges them)."""
+        hints = sorted({int(c) for c in hints if 8 <= int(c) <= LARGE_HINT_MAX})
+        gens, spent = [], 0.0
+        for c in hints:  # ascending; estimated seconds of pure-Python loops, total kept near 40 s
+            level = 2 if c <= 20000 else 1
+            est = {2: 7e-4, 1: 2.5e-4, 0: 1.0e-4}
+            while level > 0 and spent + est[level] * c > 45.0:
+                level -= 1
+            if spent + est[level] * c > 60.0 and gens:
+                continue
+            spent += est[level] * c
+            gens.append(self._large_for_hint(c, rng, level))
+        while gens:  # round-robin, so every hint is reached early
+            for g in list(gens):
+                try:
+                    yield next(g)
+                except StopIteration:
+                    gens.remove(g)
+
+    # ------------------------------------------------------------------ history stream (reuse / stale state)
+    @staticmethod
+    def _perturb(rng, v):
+        """a double that `np.allclose` (rtol 1e-5, atol 1e-8) calls equal to v, but far outside the property's 1e-9"""
+        v = F(v)
+        if v == 0:
+            return F(rng.choice([-1, 1]) * rng.choice([6e-9, 8e-9, 9e-9]))
+        eps = rng.choice([1e-6, 2.5e-6, 6e-6, 9e-6]) * rng.choice([-1, 1])
+        return F(float(v) * (1.0 + eps))
+
+    @staticmethod
+    def _far_origin(rng):
+        return (F(rng.randint(-9000, 9000)) + F(rng.randint(0, 7), 8), F(rng.randint(-900, 900)) + F(rng.randint(1, 7), 8))
+
+    def _hshape(self, rng):
+        if rng.random() < 0.8:
+            H, W = rng.randint(1, 7), rng.randint(1, 7)
+        else:
+            H, W = rng.randint(6, 12), rng.randint(5, 11)
+        return H, W
+
+    @staticmethod
+    def _copy(c):
+        import copy
+        return copy.deepcopy(c)
+
+    def _hopts(self, rng, names, **kw):
+        o = dict(kw)
+        if rng.random() < 0.5:
+            o["order"] = rng.sample(list(names), len(names))
+        if rng.random() < 0.2:
+            o["decoy"] = True
+        if rng.random() < 0.25:
+            o["scribble"] = True
+        return o
+
+    _NAMES = {"grid": GRID_OBS, "geom": GEOM_GROUPS, "grid1d": GRID1D_OBS, "shape": SHAPE_OBS}
+
+    def _step(self, rng, sub, what, **kw):
+        return {"case": sub, "what": what, "opts": self._hopts(rng, self._NAMES[sub["kind"]], **kw)}
+
+    def _perturb_geometry(self, rng, c):
+        """twin of a 2-D case: scales / origin replaced by near-duplicates"""
+        b = self._copy(c)
+        which = rng.choice(["oy", "ox", "o", "sy", "sx", "s", "all"])
+        o, s = list(b["origin"]), list(b["scales"])
+        if which in ("oy", "o", "all"):
+            o[0] = q(self._perturb(rng, o[0]))
+        if which in ("ox", "o", "all"):
+            o[1] = q(self._perturb(rng, o[1]))
+        if which in ("sy", "s", "all"):
+            s[0] = q(self._perturb(rng, s[0]))
+        if which in ("sx", "s", "all"):
+            s[1] = q(self._perturb(rng, s[1]))
+        b["origin"], b["scales"] = o, s
+        return b, f"the same call with {which} changed by ~1e-6 relative"
+
+    def _world(self, rng, kind, H, W, like=None):
+        """an ordinary sub-case of the given kind on an H x W frame (for grid1d: H*W... cells = W)"""
+        if kind == "grid":
+            c = self._grid_case(rng, H, W, "hist")
+        elif kind == "geom":
+            c = self._geom_case(rng, H, W, rng.randrange(3), "hist")
+            if len(c["points"]) > 24:
+                c["points"] = c["points"][:6] + rng.sample(c["points"][6:], 18)
+        elif kind == "shape":
+            c = self._shape_case(rng, H, W, rng.choice(CTORS), "hist", centre_nonzero=rng.random() < 0.7)
+        else:
+            n = max(1, min(9, W))
+            c = self._grid1d_case(rng, n, "".join(rng.choice("01") for _ in range(n)))
+        if like is not None:
+            c["variant"] = self._copy(like["variant"])
+        return c
+
+    def _radial(self, c, key_prefix=""):
+        """double radial quantity of every pixel centre of a shape case (circular, or the ellipse `key_prefix`)"""
+        H, W = c["shape"]
+        sy, sx = (fl(v) for v in c["scales"])
+        cy, cx = (fl(v) for v in c["centre"])
+        ii = np.arange(H, dtype=float)[:, None]
+        jj = np.arange(W, dtype=float)[None, :]
+        dy = (((H - 1) / 2 - ii) * sy - cy) + 0.0 * jj
+        dx = ((jj - (W - 1) / 2) * sx - cx) + 0.0 * ii
+        if c["ctor"] in ("circular", "annular", "anti_annular"):
+            return np.sqrt(dx * dx + dy * dy)
+        cs = c[key_prefix + "cs"]
+        qq = fl(c[{"": "axis_ratio", "inner_": "inner_axis_ratio", "outer_": "outer_axis_ratio"}[key_prefix]])
+        co, si = fl(cs[0]), fl(cs[1])
+        return np.sqrt((dx * co + dy * si) ** 2 + ((-dx * si + dy * co) / qq) ** 2)
+
+    TWIN_COMBOS = tuple(
+        (ctor, active, pkind)
+        for ctor, keys in (("circular", ["radius"]), ("annular", ["inner", "outer"]),
+                           ("anti_annular", ["inner", "outer", "outer2"]), ("elliptical", ["major"]),
+                           ("elliptical_annular", ["inner_major", "outer_major"]))
+        for active in keys
+        for pkind in (["radius", "centre", "scales"] + (["angle", "axis_ratio"] if ctor.startswith("ellip") else [])))
+    _twin_k = 0
+
+    def _shape_twin(self, rng, H, W):
+        """two shape cases whose parameters agree to ~1e-6 relative but which differ in at least one pixel (outside
+        the tie band of both): (A, B, description)"""
+        # (constructor, active radius, kind of the perturbed parameter) cycle deterministically, so that every
+        # combination -- in particular every angle / axis-ratio parameter -- occurs several times in every run
+        ctor, active, pkind = self.TWIN_COMBOS[self._twin_k % len(self.TWIN_COMBOS)]
+        self._twin_k += 1
+        a = self._shape_case(rng, H, W, ctor, "hist", centre_nonzero=True)
+        prefix = {"inner_major": "inner_", "outer_major": "outer_"}.get(active, "")
+        param = {"radius": "radius", "centre": rng.choice(["centre0", "centre1"]),
+                 "scales": rng.choice(["scales0", "scales1"]),
+                 "angle": prefix + "phi" if ctor == "elliptical_annular" else "angle",
+                 "axis_ratio": prefix + "axis_ratio"}[pkind]
+        b = self._copy(a)
+        big = float(np.max(self._radial(a, prefix))) * 2 + 10
+        if param == "radius":
+            d = self._radial(a, prefix)
+            dval = float(d[rng.randrange(H), rng.randrange(W)])
+            if dval <= 0:
+                dval = float(np.max(d)) or 1.0
+            lo, hi = F(dval) * (1 - HUG), F(dval) * (1 + HUG)
+            if rng.random() < 0.5:
+                lo, hi = hi, lo
+            a[active], b[active] = q(lo), q(hi)
+            r = F(dval)
+        else:
+            if param.startswith("centre") or param.startswith("scales"):
+                key, k = param[:-1], int(param[-1])
+                vals = list(b[key])
+                vals[k] = q(self._perturb(rng, vals[k]))
+                b[key] = vals
+            elif param.endswith("axis_ratio"):
+                b[param] = q(self._perturb(rng, b[param]))
+            else:  # angle
+                ang = self._perturb(rng, b[param]) if F(b[param]) != 0 else F(rng.choice([-1, 1]) * 7e-4)
+                b[param] = q(ang)
+                b[{"angle": "cs", "inner_phi": "inner_cs", "outer_phi": "outer_cs"}[param]] = cs_of(ang)
+            da, db = self._radial(a, prefix), self._radial(b, prefix)
+            k = int(np.argmax(np.abs(da - db) / np.maximum(1.0, np.maximum(da, db))))
+            r = F((float(da.ravel()[k]) + float(db.ravel()[k])) / 2)
+            a[active] = b[active] = q(r)
+        # the other radii stay out of the way of the pixel that flips
+        for c in (a, b):
+            if ctor == "annular":
+                if active == "outer":
+                    c["inner"] = q(F(0))
+                else:
+                    c["outer"] = q(F(big))
+            elif ctor == "anti_annular":
+                if active == "inner":
+                    c["outer"], c["outer2"] = q(r + F(big)), q(r + 2 * F(big))
+                elif active == "outer":
+                    c["inner"], c["outer2"] = q(F(-1)), q(F(big))
+                else:
+                    c["inner"], c["outer"] = q(F(-1)), q(F(0))
+            elif ctor == "elliptical_annular":
+                if active == "outer_major":
+                    c["inner_major"] = q(F(0))
+                else:
+                    c["outer_major"] = q(F(big) * 8)
+        return a, b, f"the same {ctor} call with {param if param != 'radius' else active} changed by ~1e-6 relative"
+
+    def _history(self, fam, rng):
+        H, W = self._hshape(rng)
+        far = rng.random() < 0.3
+        steps = []
+        if fam in ("twin_grid", "twin_geom"):
+            kind = fam[5:]
+            a = self._world(rng, kind, H, W)
+            if far:
+                a["origin"] = qlist(self._far_origin(rng))
+                if kind == "geom":  # keep the query points inside the moved frame
+                    a = self._geom_case_at(rng, a)
+            reuse = ["containers"] if rng.random() < 0.4 else []
+            if reuse:
+                a["variant"]["seq"] = "list"
+            if kind == "geom" and rng.random() < 0.3:  # same geometry object, near-duplicate query points
+                b = self._copy(a)
+                b["points"] = [qlist([self._perturb(rng, p[0]), self._perturb(rng, p[1])]) for p in a["points"]]
+                what, reuse = "the same conversions with every query coordinate changed by ~1e-6 relative", ["geometry"]
+            else:
+                b, what = self._perturb_geometry(rng, a)
+            if kind == "grid" and rng.random() < 0.3:
+                b["mask"] = self._world(rng, "grid", H, W)["mask"]
+            steps = [self._step(rng, a, "first call"), self._step(rng, b, what, reuse=reuse)]
+            r = rng.random()
+            if r < 0.35:
+                steps.append(self._step(rng, self._copy(a), "the first call again", reuse=reuse))
+            elif r < 0.6:
+                c, what2 = self._perturb_geometry(rng, b)
+                steps.append(self._step(rng, c, what2, reuse=reuse))
+        elif fam == "twin_shape":
+            a, b, what = self._shape_twin(rng, H, W)
+            reuse = ["containers"] if rng.random() < 0.4 else []
+            if reuse:
+                a["variant"]["seq"] = b["variant"]["seq"] = "list"
+            if rng.random() < 0.5:
+                a, b = b, a
+            steps = [self._step(rng, a, "first call"), self._step(rng, b, what, reuse=reuse)]
+            if rng.random() < 0.4:
+                steps.append(self._step(rng, self._copy(a), "the first call again", reuse=reuse))
+        elif fam == "twin_grid1d":
+            a = self._world(rng, "grid1d", 1, rng.randint(1, 9))
+            if far:
+                a["origin"] = q(self._far_origin(rng)[0])
+                a = self._grid1d_case_at(rng, a)
+            b = self._copy(a)
+            which = rng.choice(["scale", "origin", "both"])
+            if which in ("scale", "both"):
+                b["scale"] = q(self._perturb(rng, b["scale"]))
+            if which in ("origin", "both"):
+                b["origin"] = q(self._perturb(rng, b["origin"]))
+            steps = [self._step(rng, a, "first call"),
+                     self._step(rng, b, f"the same 1-D call with {which} changed by ~1e-6 relative")]
+            if rng.random() < 0.4:
+                steps.append(self._step(rng, self._copy(a), "the first call again"))
+        elif fam == "edit_mask":
+            a = self._world(rng, "grid", H, W)
+            fresh_all_false = rng.random() < 0.3
+            if fresh_all_false:  # an all-unmasked mask from Mask2D.all_false, edited in place; a second all_false
+                a["mask"]["bits"] = "0" * (H * W)  # mask of the same frame must still be all-unmasked afterwards
+            steps = [self._step(rng, a, "build + read", via_all_false=fresh_all_false)]
+            cur = a
+            for _ in range(rng.randint(1, 3)):
+                b = self._copy(cur)
+                bits = list(b["mask"]["bits"])
+                mode = rng.randrange(5)
+                if mode == 0 and len(steps) > 1:
+                    bits = list(a["mask"]["bits"])  # back to the first content
+                elif mode == 1:
+                    y = rng.randrange(H)
+                    v = rng.choice("01")
+                    bits[y * W:(y + 1) * W] = v * W
+                else:
+                    for k in rng.sample(range(H * W), min(H * W, rng.randint(1, 3))):
+                        bits[k] = "0" if bits[k] == "1" else "1"
+                b["mask"]["bits"] = "".join(bits)
+                steps.append(self._step(rng, b, "in-place edit of the Mask2D (mask[y, x] = value) + read again",
+                                        reuse=["mask"], edit_style=rng.choice(["pixel", "pixel", "row", "boolkey"])))
+                cur = b
+            if fresh_all_false:
+                g = self._world(rng, "geom", H, W)
+                g["scales"], g["origin"] = list(a["scales"]), list(a["origin"])
+                g = self._geom_case_at(rng, g)
+                g["variant"].update({"mask_ctor": "all_false", "route": "geometry"})
+                steps.append(self._step(rng, g, "a NEW Mask2D.all_false of the same frame and its pixel-centre grid"))
+                steps.append(self._step(rng, self._copy(a), "a NEW all-unmasked mask of the same frame",
+                                        via_all_false=True))
+        elif fam == "edit_mask1d":
+            a = self._world(rng, "grid1d", 1, rng.randint(2, 9))
+            steps = [self._step(rng, a, "build + read")]
+            cur = a
+            for _ in range(rng.randint(1, 2)):
+                b = self._copy(cur)
+                bits = list(b["bits"])
+                for k in rng.sample(range(len(bits)), rng.randint(1, min(2, len(bits)))):
+                    bits[k] = "0" if bits[k] == "1" else "1"
+                b["bits"] = "".join(bits)
+                steps.append(self._step(rng, b, "in-place edit of the Mask1D (mask[x] = value) + read again",
+                                        reuse=["mask"], edit_style=rng.choice(["pixel", "boolkey"])))
+                cur = b
+        elif fam == "edit_points":
+            a = self._world(rng, "geom", H, W)
+            a["variant"].update({"vals": "float64", "route": rng.choice(["geometry", "geometry_obj"])})
+            steps = [self._step(rng, a, "convert a query grid")]
+            cur = a
+            for _ in range(rng.randint(1, 2)):
+                b = self._copy(cur)
+                fresh = self._geom_case_at(rng, self._copy(a))
+                for key in ("points", "pixels"):
+                    for k in rng.sample(range(len(b[key])), max(1, len(b[key]) // 3)):
+                        b[key][k] = fresh[key][k % len(fresh[key])]
+                steps.append(self._step(rng, b, "in-place edit of the caller's query Grid2D (grid[k] = (y, x)) + "
+                                        "convert again with the same geometry object", reuse=["geometry", "qgrid"]))
+                cur = b
+        elif fam == "fault":
+            kind = rng.choice(["grid", "geom", "shape", "grid1d"])
+            a = self._world(rng, kind, H, W)
+            if kind == "grid1d":
+                faults = rng.sample(["bad_scales_uniform", "mask_bad_index", "short_scales"], rng.randint(1, 2))
+            else:
+                faults = rng.sample(["nan_point", "nan_point_geom", "nan_scalar", "bad_scales_uniform",
+                                     "short_scales_util", "radius_none", "angle_str", "short_centre",
+                                     "mask_bad_index", "readonly_edit"], rng.randint(1, 3))
+            nxt = self._copy(a) if rng.random() < 0.5 else self._world(rng, kind, H, W, like=a)
+            if kind == "grid1d" and len(nxt["bits"]) != len(a["bits"]):
+                nxt = self._copy(a)
+            reuse = {"grid": ["mask"], "geom": ["geometry", "qgrid"], "grid1d": ["mask"], "shape": []}[kind]
+            steps = [self._step(rng, a, "first call"),
+                     self._step(rng, nxt, "a call that raises part-way, then the same objects are used again",
+                                faults=faults, reuse=reuse if rng.random() < 0.7 else [])]
+        elif fam == "shared":
+            kind = rng.choice(["grid", "geom", "shape", "geom"])
+            a = self._world(rng, kind, H, W)
+            a["variant"]["seq"] = "list"
+            if kind == "geom" and rng.random() < 0.5:  # one Geometry2D object, two different point sets, both orders
+                b = self._geom_case_at(rng, self._copy(a))
+                reuse = ["geometry"]
+                what = "the same Geometry2D object converts a different set of coordinates"
+            else:  # the caller's own list objects (shape / scales / origin / centre) edited in place for another world
+                h2, w2 = (H, W) if rng.random() < 0.6 else self._hshape(rng)
+                b = self._world(rng, kind, h2, w2, like=a)
+                reuse = ["containers"]
+                what = "the caller's shape / scales / origin / centre lists are edited in place and passed again"
+            steps = [self._step(rng, a, "world A"), self._step(rng, b, what, reuse=reuse),
+                     self._step(rng, self._copy(a), "world A again (" + what + ")", reuse=reuse)]
+        else:  # "order": sibling observations in a permuted order, decoy reads first, returned arrays scribbled on
+            kind = rng.choice(["grid", "geom", "shape", "grid1d"])
+            a = self._world(rng, kind, H, W)
+            names = self._NAMES[kind]
+            s1 = {"case": a, "what": "reads in a permuted order after decoy reads",
+                  "opts": {"order": rng.sample(list(names), len(names)), "decoy": rng.random() < 0.7,
+                           "scribble": rng.random() < 0.6}}
+            s2 = {"case": self._copy(a), "what": "the same reads again in another order on the same objects",
+                  "opts": {"order": rng.sample(list(names), len(names)), "scribble": rng.random() < 0.3,
+                           "reuse": {"grid": ["mask"], "geom": ["geometry", "qgrid"], "grid1d": ["mask"],
+                                     "shape": []}[kind]}}
+            steps = [s1, s2]
+        return {"tag": "hist_" + fam, "kind": "history", "steps": steps}
+
+    def _geom_case_at(self, rng, c):
+        """fresh query points / pixel coordinates for the geometry that `c` already has (variant kept)"""
+        H, W = c["shape"]
+        sy, sx, oy, ox = (F(x) for x in c["scales"] + c["origin"])
+        ymax, xmin = oy + H * sy / 2, ox - W * sx / 2
+        npts, npix = max(1, len(c["points"])), max(1, len(c["pixels"]))
+        pts = []
+        for k in range(npts):
+            ty = F(rng.randint(1, H * 256 - 1), 256) if k % 3 else rng.randrange(H) + rng.choice([HUG, 1 - HUG])
+            tx = F(rng.randint(1, W * 256 - 1), 256) if k % 4 else rng.randrange(W) + rng.choice([HUG, 1 - HUG])
+            pts.append(qlist((ymax - ty * sy, xmin + tx * sx)))
+        c["points"] = pts
+        c["pixels"] = [qlist((F(rng.randint(-16, (H + 2) * 8), 8), F(rng.randint(-16, (W + 2) * 8), 8)))
+                       for _ in range(npix)]
+        return c
+
+    def _grid1d_case_at(self, rng, c):
+        n = len(c["bits"])
+        s, o = F(c["scale"]), F(c["origin"])
+        xmin = o - n * s / 2
+        pts = [xmin + F(rng.randint(1, n * 256 - 1), 256) * s for _ in range(4)]
+        pts += [xmin + (b + sg * HUG) * s for b in range(n + 1) for sg in (-1, 1) if 0 < b + sg * HUG < n]
+        c["points"] = qlist(pts)
+        return c
+
+    HIST_FAMILIES = (("twin_grid", 80), ("twin_geom", 40), ("twin_shape", 110), ("twin_grid1d", 28),
+                     ("edit_mask", 56), ("edit_mask1d", 20), ("edit_points", 30), ("fault", 56), ("shared", 56),
+                     ("order", 44))
+
+    def _histories(self, tier, rng):
+        mult = 1 if tier == "quick" else 3
+        self._twin_k = 0
+        todo = [[fam, n * mult] for fam, n in self.HIST_FAMILIES]
+        while todo:  # round-robin over the families
+            for t in list(todo):
+                yield self._history(t[0], rng)
+                t[1] -= 1
+                if t[1] <= 0:
+                    todo.remove(t)
+
     def generate(self, tier, rng):
         side = 7 if tier == "quick" else 12
         shapes = [(h, w) for h in range(1, side + 1) for w in range(1, side + 1)]
         reps_geom = 3 if tier == "quick" else 6
         reps_shape = 4 if tier == "quick" else 12
+        # the history stream has its own PRNG (derived from the run's, without consuming it) and is interleaved with
+        # the ordinary families, so the escalation phase and the failing-input search reach it early
+        hist = self._histories(tier, random.Random(int(hashlib.sha1(repr(rng.getstate()).encode()).hexdigest()[:16], 16)))
+        n_hist = sum(n for _, n in self.HIST_FAMILIES) * (1 if tier == "quick" else 3)
+        hist_per_shape = -(-n_hist // len(shapes))
         for (H, W) in shapes:
+            for _ in range(hist_per_shape):
+                h = next(hist, None)
+                if h is not None:
+                    yield h
             for k in range(reps_geom):
                 yield self._geom_case(rng, H, W, k, "geom")
             yield self._geom_int_case(rng, H, W, "geom_int")
@@ -434,34 +1156,482 @@ class C02(PropertyCheck):
             yield self._geom_int_case(rng, H, W, "geom_int_large")
             yield self._grid_case(rng, H, W, "grid_large")
             yield self._shape_case(rng, H, W, rng.choice(CTORS), "shape_large")
+        yield from hist
 
     # ------------------------------------------------------------------ implementation
     def run_impl(self, case):
         aa = load_autoarray()
+        if case["kind"] == "history":
+            obs = isolated_history(case)
+            return obs if obs is not None else self._impl_history(aa, case)
+        return self._impl_one(aa, case, None, {})
+
+    def _impl_one(self, aa, case, ctx, opts):
         kind = case["kind"]
         if kind == "geom":
+            if case.get("large"):
+                return self._impl_geom_large(aa, case)
             if case.get("single_band_point") and all(in_band(case, p) for p in case["points"]):
                 raise Skip("query point on a pixel boundary (inside the 1e-9 tie band)")
-            return self._impl_geom(aa, case)
+            return self._impl_geom(aa, case, ctx, opts)
         if kind == "grid":
-            return self._impl_grid(aa, case)
+            return self._impl_grid(aa, case, ctx, opts)
         if kind == "grid1d":
-            return self._impl_grid1d(aa, case)
-        return self._impl_shape(aa, case)
+            return self._impl_grid1d(aa, case, ctx, opts)
+        return self._impl_shape(aa, case, ctx, opts)
+
+    # -- histories: the steps of one case run one after the other on REAL reused objects (`ctx`) ---------------
+    def _impl_history(self, aa, case):
+        ctx = {}
+        out = []
+        for st in case["steps"]:
+            opts = st.get("opts") or {}
+            try:
+                for name in opts.get("faults", ()):
+                    self._fault(aa, name, st["case"], ctx)
+                obs = self._impl_one(aa, st["case"], ctx, opts)
+            except Skip:
+                raise
+            except Exception as e:  # an unexpected exception of one step is that step's observation
+                obs = {"err": type(e).__name__, "msg": str(e)[:300]}
+            out.append(obs)
+        return {"steps": out}
 
     @staticmethod
-    def _geometry_args(case):
-        """(shape, pixel_scales, tuple_scales, origin_kwargs) as the case's variant prescribes"""
+    def _seq(ctx, opts, name, xs, kind):
+        """container of a short sequence argument.  In a history step that reuses "containers" the caller-owned
+        list handed to the library by the previous step is edited in place and handed over again."""
+        xs = list(xs)
+        if ctx is not None and kind == "list" and "containers" in (opts or {}).get("reuse", ()):
+            c = ctx.get("c_" + name)
+            if isinstance(c, list) and len(c) == len(xs):
+                c[:] = xs
+            else:
+                c = ctx["c_" + name] = list(xs)
+            return c
+        return seq_of(xs, kind)
+
+    @staticmethod
+    def _ordered(default, opts):
+        order = [k for k in (opts or {}).get("order", ()) if k in default]
+        return order + [k for k in default if k not in order]
+
+    @staticmethod
+    def _scribble(raw):
+        """caller edits a RETURNED array in place (through the public `__setitem__` of the library's types, or
+        numpy for a plain ndarray): must never reach anything the library hands out later."""
+        try:
+            if isinstance(raw, np.ndarray):
+                if raw.size:
+                    raw[...] = ~raw if raw.dtype == bool else 12345.678
+            elif hasattr(raw, "array"):
+                a = np.asarray(raw.array)
+                if a.size:
+                    raw[0] = (not bool(a.ravel()[0])) if a.dtype == bool else 12345.678
+                    raw[-1] = (not bool(a.ravel()[-1])) if a.dtype == bool else -98765.4321
+        except Exception:
+            pass
+
+    def _read(self, opts, thunk, conv):
+        raw = thunk()
+        out = conv(raw)
+        if (opts or {}).get("scribble"):
+            self._scribble(raw)
+        return out
+
+    @staticmethod
+    def _read_properties(obj, depth=1, skip=("hdu", "fits", "output", "header", "json", "dict")):
+        """decoy reads: every public (cached) property of `obj` (and of the derive-helpers it returns)"""
+        cls = type(obj)
+        for n in dir(cls):
+            if n.startswith("_") or any(s in n for s in skip):
+                continue
+            a = getattr(cls, n, None)
+            if not (isinstance(a, property) or type(a).__name__ == "cached_property"):
+                continue
+            try:
+                v = getattr(obj, n)
+            except Exception:
+                continue
+            if depth > 0 and type(v).__name__.startswith(("Derive", "Geometry")):
+                C02._read_properties(v, depth - 1, skip)
+
+    @staticmethod
+    def _edit_in_place(obj, old, new, style):
+        """edit a library mask (`old`/`new`: lists of rows of bools, or flat lists for 1-D) through its public
+        `__setitem__` until it holds `new`"""
+        one_d = not isinstance(new[0], (list, tuple))
+        if one_d:
+            diffs = [(x,) for x in range(len(new)) if bool(old[x]) != bool(new[x])]
+            val = lambda k: bool(new[k[0]])
+        else:
+            diffs = [(y, x) for y in range(len(new)) for x in range(len(new[0])) if bool(old[y][x]) != bool(new[y][x])]
+            val = lambda k: bool(new[k[0]][k[1]])
+        if not diffs:
+            return
+        if style == "row" and not one_d:
+            for y in sorted({k[0] for k in diffs}):
+                obj[y, :] = np.array([bool(b) for b in new[y]], dtype=bool)
+        elif style == "boolkey" and len({val(k) for k in diffs}) == 1:
+            key = np.zeros(np.asarray(new).shape, dtype=bool)
+            for k in diffs:
+                key[k] = True
+            obj[key] = val(diffs[0])
+        else:
+            for k in diffs:
+                obj[k if not one_d else k[0]] = val(k)
+
+    def _fault(self, aa, name, case, ctx):
+        """a call that raises part-way (bad input) on the same modules / objects the history keeps using"""
+        from autoarray.geometry import geometry_util
+        from autoarray.geometry.geometry_2d import Geometry2D
+        from autoarray.structures.grids import grid_1d_util, grid_2d_util
+
+        kind = case["kind"]
+        try:
+            if kind == "grid1d":
+                n = len(case["bits"])
+                s, o = fl(case["scale"]), fl(case["origin"])
+                if name == "bad_scales_uniform":
+                    aa.Grid1D.uniform(shape_native=(n,), pixel_scales=(None,), origin=(o,))
+                elif name == "mask_bad_index" and ctx.get("m1") is not None:
+                    ctx["m1"][n + 3] = False
+                else:
+                    grid_1d_util.grid_1d_slim_via_mask_from(mask_1d=np.zeros(n, dtype=bool), pixel_scales=(), origin=(o,))
+                return
+            H, W = case["shape"] if "shape" in case else (case["mask"]["h"], case["mask"]["w"])
+            sc_t = tuple(fl(x) for x in case["scales"])
+            org_t = tuple(fl(x) for x in case["origin"])
+            cen_t = tuple(fl(x) for x in case.get("centre", ["0", "0"]))
+            bad = np.array([[org_t[0], org_t[1]], [org_t[0] + sc_t[0] / 4, org_t[1] - sc_t[1] / 4],
+                            [np.nan, np.nan], [org_t[0], org_t[1]]])
+            if name == "nan_point":  # int(nan) raises after the first rows of the output were written
+                geometry_util.grid_pixel_indexes_2d_slim_from(
+                    grid_scaled_2d_slim=bad, shape_native=(H, W), pixel_scales=sc_t, origin=org_t)
+            elif name == "nan_point_geom":
+                g = ctx.get("g") or Geometry2D(shape_native=(H, W), pixel_scales=sc_t, origin=org_t)
+                g.grid_pixel_centres_2d_from(
+                    grid_scaled_2d=aa.Grid2D.no_mask(values=bad, shape_native=(1, 4), pixel_scales=1.0))
+            elif name == "nan_scalar":
+                g = ctx.get("g") or Geometry2D(shape_native=(H, W), pixel_scales=sc_t, origin=org_t)
+                g.pixel_coordinates_2d_from((org_t[0], float("nan")))
+            elif name == "bad_scales_uniform":
+                aa.Grid2D.uniform(shape_native=(H, W), pixel_scales=(sc_t[0], None), origin=org_t)
+            elif name == "short_scales_util":
+                grid_2d_util.grid_2d_slim_via_mask_from(
+                    mask_2d=np.full((H, W), False), pixel_scales=(sc_t[0],), origin=org_t)
+            elif name == "radius_none":
+                aa.Mask2D.circular(shape_native=(H, W), pixel_scales=sc_t, radius=None, centre=cen_t, origin=org_t)
+            elif name == "angle_str":
+                aa.Mask2D.elliptical(shape_native=(H, W), pixel_scales=sc_t, major_axis_radius=1.0, axis_ratio=0.5,
+                                     angle="x", centre=cen_t, origin=org_t)
+            elif name == "short_centre":
+                aa.Mask2D.circular_annular(shape_native=(H, W), pixel_scales=sc_t, inner_radius=0.5,
+                                           outer_radius=2.0, centre=(cen_t[0],), origin=org_t)
+            elif name == "mask_bad_index" and ctx.get("mask") is not None:
+                ctx["mask"][H + 3, 0] = False
+            elif name == "readonly_edit" and ctx.get("qg_points") is not None:
+                qg = ctx["qg_points"]
+                a = np.asarray(qg.array)
+                a.setflags(write=False)
+                try:
+                    qg[0] = [0.0, 0.0]
+                finally:
+                    a.setflags(write=True)
+        except Exception:
+            pass
+
+    def _geometry_args(self, case, ctx=None, opts=None):
+        """(variant, pixel_scales, tuple_scales, origin_kwargs) as the case's variant prescribes"""
         v = case.get("variant", {})
         pm, sq = v.get("params", "float"), v.get("seq", "tuple")
         sy, sx = (F(x) for x in case["scales"])
         sc_t = tuple(num(x, pm) for x in case["scales"])
-        sc = float(sy) if (v.get("scalar_scales") and sy == sx) else seq_of(sc_t, sq)
-        org = seq_of([num(x, pm) for x in case["origin"]], sq)
+        sc = float(sy) if (v.get("scalar_scales") and sy == sx) else self._seq(ctx, opts, "scales", sc_t, sq)
+        org = self._seq(ctx, opts, "origin", [num(x, pm) for x in case["origin"]], sq)
         okw = {} if (v.get("omit_defaults") and all(F(x) == 0 for x in case["origin"])) else {"origin": org}
         return v, sc, sc_t, okw
 
-    def _impl_geom(self, aa, case):
+    def _impl_geom(self, aa, case, ctx=None, opts=None):
+        from autoarray.geometry import geometry_util
+        from autoarray.geometry.geometry_2d import Geometry2D
+
+        opts = opts or {}
+        reuse = opts.get("reuse", ()) if ctx is not None else ()
+        H, W = case["shape"]
+        v, sc, sc_t, okw = self._geometry_args(case, ctx, opts)
+        org_t = tuple(okw["origin"]) if okw else (0.0, 0.0)
+        route = v.get("route", "geometry")
+        gkey = ("geom", H, W, tuple(case["scales"]), tuple(case["origin"]), route, v.get("mask_ctor", "all_false"))
+        if "geometry" in reuse and ctx.get("g_key") == gkey:
+            mask, g = ctx["gmask"], ctx["g"]
+        else:
+            if v.get("mask_ctor", "all_false") == "all_false":
+                mask = aa.Mask2D.all_false(shape_native=self._seq(ctx, opts, "shape", (H, W), v.get("seq", "tuple")),
+                                           pixel_scales=sc, **okw)
+            else:
+                mask = aa.Mask2D(mask=mask_arg([[False] * W for _ in range(H)], v.get("mask_arg", "ndarray")),
+                                 pixel_scales=sc, **okw)
+            g = Geometry2D(shape_native=(H, W), pixel_scales=sc, **okw) if route == "geometry_obj" else mask.geometry
+            if ctx is not None:
+                ctx.update({"g_key": gkey, "gmask": mask, "g": g})
+        vals, pseq = v.get("vals", "pylist"), v.get("point_seq", "tuple")
+        pm = "int" if vals in ("int64", "pyint") else "float"
+        pts = [seq_of([num(a, pm), num(b, pm)], pseq) for a, b in case["points"]]
+        pix = [seq_of([num(a, pm), num(b, pm)], pseq) for a, b in case["pixels"]]
+        ukw = dict(shape_native=(H, W), pixel_scales=sc_t, origin=org_t)
+
+        def qgrid(pairs, slot):
+            a = arr_of(pairs, vals)
+            old = ctx.get("qg_" + slot) if ctx is not None else None
+            if ("qgrid" in reuse and old is not None and isinstance(a, np.ndarray) and a.dtype == np.float64
+                    and np.asarray(old.array).dtype == np.float64 and len(old) == len(a)):
+                # the caller's query grid of the previous step, edited in place through Grid2D.__setitem__
+                for k in range(len(a)):
+                    if tuple(np.asarray(old.array)[k]) != tuple(a[k]):
+                        old[k] = [float(a[k][0]), float(a[k][1])]
+                return old
+            if v.get("grid_ctor", "no_mask") == "no_mask":
+                qg = aa.Grid2D.no_mask(values=a, shape_native=(1, len(pairs)), pixel_scales=1.0)
+            else:
+                qg = aa.Grid2D(values=a, mask=aa.Mask2D.all_false(shape_native=(1, len(pairs)), pixel_scales=1.0))
+            if ctx is not None:
+                ctx["qg_" + slot] = qg
+            return qg
+
+        if opts.get("decoy"):
+            self._read_properties(mask)
+            self._read_properties(g)
+        obs = {}
+        arr = lambda o: np.asarray(o.array if hasattr(o, "array") else o)
+
+        def g_scalars():
+            obs.update({
+                "central_pixel": qlist(g.central_pixel_coordinates),
+                "central_scaled": qlist(g.central_scaled_coordinates),
+                "minima": qlist(g.scaled_minima), "maxima": qlist(g.scaled_maxima),
+                "shape_scaled": qlist(g.shape_native_scaled),
+                "extent": qlist(g.extent)})
+
+        def g_grid():
+            obs["grid"] = self._read(opts, lambda: aa.Grid2D.from_mask(mask=mask), lambda o: pairs_q(arr(o)))
+
+        def g_centre_roundtrip():
+            obs["centre_roundtrip"] = [
+                [int(x) for x in g.pixel_coordinates_2d_from(g.scaled_coordinates_2d_from((i, j)))]
+                for i in range(H) for j in range(W)]
+
+        def g_empty():  # empty coordinate lists through the util routines
+            e = np.zeros((0, 2))
+            obs["empty"] = [len(geometry_util.grid_pixels_2d_slim_from(grid_scaled_2d_slim=e, **ukw)),
+                            len(geometry_util.grid_pixel_centres_2d_slim_from(grid_scaled_2d_slim=e, **ukw)),
+                            len(geometry_util.grid_pixel_indexes_2d_slim_from(grid_scaled_2d_slim=e, **ukw)),
+                            len(geometry_util.grid_scaled_2d_slim_from(grid_pixels_2d_slim=e, **ukw))]
+
+        def g_points():
+            if not pts:
+                return
+            obs["pix_a"] = [[int(x) for x in g.pixel_coordinates_2d_from(p)] for p in pts]
+            obs["snap"] = [qlist(g.scaled_coordinate_2d_to_scaled_at_pixel_centre_from(p)) for p in pts]
+            rd = lambda th, conv: self._read(opts, th, conv)
+            c_cen = lambda o: [[int(a_), int(b_)] for a_, b_ in arr(o).reshape(-1, 2)]
+            c_idx = lambda o: [int(x) for x in arr(o).ravel()]
+            c_pq = lambda o: pairs_q(arr(o))
+            if route == "util":
+                a = np.asarray(arr_of(case["points"], vals))
+                obs["centres"] = rd(lambda: geometry_util.grid_pixel_centres_2d_slim_from(grid_scaled_2d_slim=a, **ukw), c_cen)
+                obs["indexes"] = rd(lambda: geometry_util.grid_pixel_indexes_2d_slim_from(grid_scaled_2d_slim=a, **ukw), c_idx)
+                cont = geometry_util.grid_pixels_2d_slim_from(grid_scaled_2d_slim=a, **ukw)
+                obs["pixels"] = c_pq(cont)
+                obs["roundtrip"] = rd(lambda: geometry_util.grid_scaled_2d_slim_from(grid_pixels_2d_slim=cont, **ukw), c_pq)
+            else:
+                qg = qgrid(case["points"], "points")
+                if opts.get("decoy"):
+                    self._read_properties(qg, depth=0)
+                obs["centres"] = rd(lambda: g.grid_pixel_centres_2d_from(grid_scaled_2d=qg), c_cen)
+                obs["indexes"] = rd(lambda: g.grid_pixel_indexes_2d_from(grid_scaled_2d=qg), c_idx)
+                contg = g.grid_pixels_2d_from(grid_scaled_2d=qg)
+                obs["pixels"] = c_pq(contg)
+                obs["roundtrip"] = rd(lambda: g.grid_scaled_2d_from(grid_pixels_2d=contg), c_pq)
+
+        def g_pixels():
+            if not pix:
+                return
+            obs["scaled"] = [qlist(g.scaled_coordinates_2d_from(p)) for p in pix]
+            if route == "util":
+                a = np.asarray(arr_of(case["pixels"], vals))
+                gs = geometry_util.grid_scaled_2d_slim_from(grid_pixels_2d_slim=a, **ukw)
+                rt = geometry_util.grid_pixels_2d_slim_from(grid_scaled_2d_slim=gs, **ukw)
+            else:
+                gsg = g.grid_scaled_2d_from(grid_pixels_2d=qgrid(case["pixels"], "pixels"))
+                gs = gsg.array
+                rt = g.grid_pixels_2d_from(grid_scaled_2d=gsg).array
+            obs["grid_scaled"] = pairs_q(gs)
+            obs["roundtrip_p"] = pairs_q(rt)
+
+        groups = {"scalars": g_scalars, "grid": g_grid, "centre_roundtrip": g_centre_roundtrip, "empty": g_empty,
+                  "points": g_points, "pixels": g_pixels}
+        for name in self._ordered(GEOM_GROUPS, opts):
+            groups[name]()
+        return obs
+
+    def _impl_grid(self, aa, case, ctx=None, opts=None):
+        from autoarray.structures.grids import grid_2d_util
+
+        opts = opts or {}
+        reuse = opts.get("reuse", ()) if ctx is not None else ()
+        large = bool(case.get("large"))
+        if large:
+            m_np = large_mask(case["mask_gen"])
+            H, W = m_np.shape
+            bits2d = m_np if case.get("variant", {}).get("mask_arg", "ndarray") == "ndarray" else m_np.tolist()
+        else:
+            mj = case["mask"]
+            H, W = mj["h"], mj["w"]
+            bits2d = [[mj["bits"][y * W + x] == "1" for x in range(W)] for y in range(H)]
+            m_np = np.array(bits2d, dtype=bool)
+        v, sc, sc_t, okw = self._geometry_args(case, ctx, opts)
+        org_t = tuple(okw["origin"]) if okw else (0.0, 0.0)
+        mkey = ("grid", H, W, tuple(case["scales"]), tuple(case["origin"]))
+        if "mask" in reuse and ctx.get("mask_key") == mkey and not large:
+            mask = ctx["mask"]  # the SAME Mask2D object, edited in place to this step's bits
+            self._edit_in_place(mask, ctx["mask_bits"], bits2d, opts.get("edit_style", "pixel"))
+        elif opts.get("via_all_false") and not m_np.any():
+            mask = aa.Mask2D.all_false(shape_native=(H, W), pixel_scales=sc, **okw)
+        else:
+            mask = aa.Mask2D(mask=mask_arg(bits2d, v.get("mask_arg", "ndarray")), pixel_scales=sc, **okw)
+        if ctx is not None:
+            ctx.update({"mask_key": mkey, "mask": mask, "mask_bits": bits2d})
+        if opts.get("decoy"):
+            self._read_properties(mask)
+        P = (lambda o: NPArr(np.asarray(o.array if hasattr(o, "array") else o, dtype=float).reshape(-1, 2))) \
+            if large else (lambda o: pairs_q(np.asarray(o.array if hasattr(o, "array") else o)))
+        thunks = {
+            "from_mask": lambda: aa.Grid2D.from_mask(mask=mask),
+            "unmasked": lambda: mask.derive_grid.unmasked,
+            "all_false": lambda: mask.derive_grid.all_false,
+            "uniform": lambda: aa.Grid2D.uniform(
+                shape_native=self._seq(ctx, opts, "shape", (H, W), v.get("seq", "tuple")), pixel_scales=sc, **okw),
+            "util": lambda: grid_2d_util.grid_2d_slim_via_mask_from(
+                mask_2d=np.array(m_np, dtype=bool), pixel_scales=sc_t, origin=org_t),
+        }
+        obs = {}
+        for name in self._ordered(GRID_OBS, opts):
+            obs[name] = self._read(opts, thunks[name], P)
+        return obs
+
+    def _impl_grid1d(self, aa, case, ctx=None, opts=None):
+        from autoarray.geometry import geometry_util
+
+        opts = opts or {}
+        reuse = opts.get("reuse", ()) if ctx is not None else ()
+        large = bool(case.get("large"))
+        bits = "".join("1" if b else "0" for b in large_mask({**case["bits_gen"], "h": 1, "w": case["bits_gen"]["n"]})[0]) \
+            if large else case["bits"]
+        n = len(bits)
+        v = case.get("variant", {})
+        pm, pseq = v.get("params", "float"), v.get("point_seq", "tuple")
+        s, o = num(case["scale"], pm), num(case["origin"], pm)
+        marg = v.get("mask_arg", "ndarray")
+        mb = [c == "1" for c in bits]
+        m = mb if marg == "list" else [int(b) for b in mb] if marg == "int_list" else np.array(mb, dtype=bool)
+        okw = {} if (v.get("omit_defaults") and F(case["origin"]) == 0) else {"origin": (o,)}
+        sc = float(F(case["scale"])) if v.get("scalar_scales") else (s,)
+        mkey = ("grid1d", n, case["scale"], case["origin"])
+        if "mask" in reuse and ctx.get("m1_key") == mkey:
+            m1 = ctx["m1"]
+            self._edit_in_place(m1, ctx["m1_bits"], mb, opts.get("edit_style", "pixel"))
+        else:
+            m1 = aa.Mask1D(mask=m, pixel_scales=sc, **okw)
+        if ctx is not None:
+            ctx.update({"m1_key": mkey, "m1": m1, "m1_bits": mb})
+        if opts.get("decoy"):
+            self._read_properties(m1)
+        ipm = "int" if v.get("vals") in ("int64", "pyint") else "float"
+        L = (lambda o_: NPArr(np.asarray(o_.array if hasattr(o_, "array") else o_, dtype=float).ravel())) if large \
+            else (lambda o_: qlist(np.asarray(o_.array if hasattr(o_, "array") else o_)))
+        points = large_points_1d(case)[0] if large else case["points"]
+        pixels = large_points_1d(case)[1] if large else case["pixels"]
+        thunks = {
+            "extent": lambda: qlist(m1.geometry.extent),
+            "uniform": lambda: self._read(opts, lambda: aa.Grid1D.uniform(shape_native=(n,), pixel_scales=sc, **okw), L),
+            "pix": lambda: [int(geometry_util.pixel_coordinates_1d_from(
+                scaled_coordinates_1d=seq_of([num(p, ipm)], pseq), shape_slim=(n,), pixel_scales=(s,),
+                origins=(o,))[0]) for p in points],
+            "scaled": lambda: qlist([geometry_util.scaled_coordinates_1d_from(
+                pixel_coordinates_1d=seq_of([num(p, ipm)], pseq), shape_slim=(n,), pixel_scales=(s,),
+                origins=(o,))[0] for p in pixels]),
+            "grid": lambda: self._read(opts, lambda: aa.Grid1D.from_mask(mask=m1), L),
+        }
+        obs = {}
+        for name in self._ordered(GRID1D_OBS, opts):
+            obs[name] = thunks[name]()
+        return obs
+
+    def _impl_shape(self, aa, case, ctx=None, opts=None):
+        from autoarray.mask import mask_2d_util
+
+        opts = opts or {}
+        H, W = case["shape"]
+        v, sc, sc_t, okw = self._geometry_args(case, ctx, opts)
+        pm, sq = v.get("params", "float"), v.get("seq", "tuple")
+        cen_t = tuple(num(x, pm) for x in case["centre"])
+        kw = dict(shape_native=self._seq(ctx, opts, "shape", (H, W), sq), pixel_scales=sc, **okw)
+        if not (v.get("omit_defaults") and all(F(x) == 0 for x in case["centre"])):
+            kw["centre"] = self._seq(ctx, opts, "centre", cen_t, sq)
+        if v.get("explicit_flags"):
+            kw["invert"] = False
+        ukw = dict(shape_native=(H, W), pixel_scales=sc_t, centre=cen_t)
+        ctor = case["ctor"]
+        g = lambda k: num(case[k], pm)
+        if ctor == "circular":
+            fm = lambda: aa.Mask2D.circular(radius=g("radius"), **kw)
+            fu = lambda: mask_2d_util.mask_2d_circular_from(radius=g("radius"), **ukw)
+        elif ctor == "annular":
+            fm = lambda: aa.Mask2D.circular_annular(inner_radius=g("inner"), outer_radius=g("outer"), **kw)
+            fu = lambda: mask_2d_util.mask_2d_circular_annular_from(
+                inner_radius=g("inner"), outer_radius=g("outer"), **ukw)
+        elif ctor == "anti_annular":
+            fm = lambda: aa.Mask2D.circular_anti_annular(inner_radius=g("inner"), outer_radius=g("outer"),
+                                                         outer_radius_2=g("outer2"), **kw)
+            fu = lambda: mask_2d_util.mask_2d_circular_anti_annular_from(
+                inner_radius=g("inner"), outer_radius=g("outer"), outer_radius_2_scaled=g("outer2"), **ukw)
+        elif ctor == "elliptical":
+            fm = lambda: aa.Mask2D.elliptical(major_axis_radius=g("major"), axis_ratio=g("axis_ratio"),
+                                              angle=g("angle"), **kw)
+            fu = lambda: mask_2d_util.mask_2d_elliptical_from(
+                major_axis_radius=g("major"), axis_ratio=g("axis_ratio"), angle=g("angle"), **ukw)
+        else:
+            ek = dict(inner_major_axis_radius=g("inner_major"), inner_axis_ratio=g("inner_axis_ratio"),
+                      inner_phi=g("inner_phi"), outer_major_axis_radius=g("outer_major"),
+                      outer_axis_ratio=g("outer_axis_ratio"), outer_phi=g("outer_phi"))
+            fm = lambda: aa.Mask2D.elliptical_annular(**ek, **kw)
+            fu = lambda: mask_2d_util.mask_2d_elliptical_annular_from(**ek, **ukw)
+        if opts.get("decoy"):  # a sibling constructor on the same frame first, and everything derived from its result
+            try:
+                d = aa.Mask2D.circular(shape_native=(H, W), pixel_scales=sc_t, radius=1.0, centre=cen_t) \
+                    if ctor != "circular" else \
+                    aa.Mask2D.elliptical(shape_native=(H, W), pixel_scales=sc_t, major_axis_radius=1.5,
+                                         axis_ratio=0.5, angle=30.0, centre=cen_t)
+                self._read_properties(d)
+            except Exception:
+                pass
+        obs = {}
+        for name in self._ordered(SHAPE_OBS, opts):
+            if name == "util_mask":
+                if v.get("skip_util"):
+                    continue
+                obs["util_mask"] = self._read(opts, fu, lambda u: mask_json(np.asarray(u, dtype=bool)))
+            else:
+                m = fm()
+                obs["mask"] = mask_json(np.asarray(m, dtype=bool))
+                obs["origin"], obs["scales"] = qlist(m.origin), qlist(m.pixel_scales)
+                if opts.get("scribble"):
+                    self._scribble(m)
+        return obs
+
+    # -- large (oracle-only) geometry cases -------------------------------------------------------------------
+    def _impl_geom_large(self, aa, case):
         from autoarray.geometry import geometry_util
         from autoarray.geometry.geometry_2d import Geometry2D
 
@@ -471,163 +1641,93 @@ class C02(PropertyCheck):
         if v.get("mask_ctor", "all_false") == "all_false":
             mask = aa.Mask2D.all_false(shape_native=seq_of((H, W), v.get("seq", "tuple")), pixel_scales=sc, **okw)
         else:
-            mask = aa.Mask2D(mask=mask_arg([[False] * W for _ in range(H)], v.get("mask_arg", "ndarray")),
-                             pixel_scales=sc, **okw)
+            mask = aa.Mask2D(mask=np.zeros((H, W), dtype=bool), pixel_scales=sc, **okw)
         route = v.get("route", "geometry")
         g = Geometry2D(shape_native=(H, W), pixel_scales=sc, **okw) if route == "geometry_obj" else mask.geometry
-        vals, pseq = v.get("vals", "pylist"), v.get("point_seq", "tuple")
-        pm = "int" if vals in ("int64", "pyint") else "float"
-        pts = [seq_of([num(a, pm), num(b, pm)], pseq) for a, b in case["points"]]
-        pix = [seq_of([num(a, pm), num(b, pm)], pseq) for a, b in case["pixels"]]
         ukw = dict(shape_native=(H, W), pixel_scales=sc_t, origin=org_t)
-
-        def qgrid(pairs):
-            a = arr_of(pairs, vals)
-            if v.get("grid_ctor", "no_mask") == "no_mask":
-                return aa.Grid2D.no_mask(values=a, shape_native=(1, len(pairs)), pixel_scales=1.0)
-            return aa.Grid2D(values=a, mask=aa.Mask2D.all_false(shape_native=(1, len(pairs)), pixel_scales=1.0))
-
         obs = {
             "central_pixel": qlist(g.central_pixel_coordinates),
             "central_scaled": qlist(g.central_scaled_coordinates),
             "minima": qlist(g.scaled_minima), "maxima": qlist(g.scaled_maxima),
             "shape_scaled": qlist(g.shape_native_scaled),
             "extent": qlist(g.extent),
-            "grid": pairs_q(aa.Grid2D.from_mask(mask=mask).array),
-            "centre_roundtrip": [
-                [int(x) for x in g.pixel_coordinates_2d_from(g.scaled_coordinates_2d_from((i, j)))]
-                for i in range(H) for j in range(W)],
         }
-        # empty coordinate lists through the util routines
-        e = np.zeros((0, 2))
-        obs["empty"] = [len(geometry_util.grid_pixels_2d_slim_from(grid_scaled_2d_slim=e, **ukw)),
-                        len(geometry_util.grid_pixel_centres_2d_slim_from(grid_scaled_2d_slim=e, **ukw)),
-                        len(geometry_util.grid_pixel_indexes_2d_slim_from(grid_scaled_2d_slim=e, **ukw)),
-                        len(geometry_util.grid_scaled_2d_slim_from(grid_pixels_2d_slim=e, **ukw))]
-        if pts:
-            obs["pix_a"] = [[int(x) for x in g.pixel_coordinates_2d_from(p)] for p in pts]
-            obs["snap"] = [qlist(g.scaled_coordinate_2d_to_scaled_at_pixel_centre_from(p)) for p in pts]
+        if case.get("frame_grid", True):
+            obs["grid"] = NPArr(np.asarray(aa.Grid2D.from_mask(mask=mask).array, dtype=float).reshape(-1, 2))
+            ks = self._large_rt_pixels(case)
+            obs["centre_roundtrip"] = NPArr(np.array(
+                [[int(x) for x in g.pixel_coordinates_2d_from(g.scaled_coordinates_2d_from((int(k) // W, int(k) % W)))]
+                 for k in ks], dtype=np.int64).reshape(-1, 2))
+        pts, mode = large_points(case)
+        vals = v.get("vals", "float64")
+        if mode == "int" and vals in ("int64", "pyint"):
+            a = pts.astype(np.int64) if vals == "int64" else [[int(y), int(x)] for y, x in pts]
+        else:
+            a = pts.tolist() if vals in ("pylist", "pyint") else pts.copy()
+
+        def qgrid(values, n):
+            if v.get("grid_ctor", "no_mask") == "no_mask":
+                return aa.Grid2D.no_mask(values=values, shape_native=(1, n), pixel_scales=1.0)
+            return aa.Grid2D(values=values, mask=aa.Mask2D.all_false(shape_native=(1, n), pixel_scales=1.0))
+
+        if len(pts):
             if route == "util":
-                a = np.asarray(arr_of(case["points"], vals))
-                cen = geometry_util.grid_pixel_centres_2d_slim_from(grid_scaled_2d_slim=a, **ukw)
-                idx = geometry_util.grid_pixel_indexes_2d_slim_from(grid_scaled_2d_slim=a, **ukw)
-                cont = geometry_util.grid_pixels_2d_slim_from(grid_scaled_2d_slim=a, **ukw)
+                an = np.asarray(a)
+                cen = geometry_util.grid_pixel_centres_2d_slim_from(grid_scaled_2d_slim=an, **ukw)
+                idx = geometry_util.grid_pixel_indexes_2d_slim_from(grid_scaled_2d_slim=an, **ukw)
+                cont = geometry_util.grid_pixels_2d_slim_from(grid_scaled_2d_slim=an, **ukw)
                 back = geometry_util.grid_scaled_2d_slim_from(grid_pixels_2d_slim=cont, **ukw)
             else:
-                qg = qgrid(case["points"])
+                qg = qgrid(a, len(pts))
                 cen = g.grid_pixel_centres_2d_from(grid_scaled_2d=qg).array
                 idx = g.grid_pixel_indexes_2d_from(grid_scaled_2d=qg).array
                 contg = g.grid_pixels_2d_from(grid_scaled_2d=qg)
                 cont = contg.array
                 back = g.grid_scaled_2d_from(grid_pixels_2d=contg).array
-            obs["centres"] = [[int(a_), int(b_)] for a_, b_ in np.asarray(cen).reshape(-1, 2)]
-            obs["indexes"] = [int(x) for x in np.asarray(idx).ravel()]
-            obs["pixels"] = pairs_q(cont)
-            obs["roundtrip"] = pairs_q(back)
-        if pix:
-            obs["scaled"] = [qlist(g.scaled_coordinates_2d_from(p)) for p in pix]
+            obs["centres"] = NPArr(np.asarray(cen).reshape(-1, 2))
+            obs["indexes"] = NPArr(np.asarray(idx).ravel())
+            obs["pixels"] = NPArr(np.asarray(cont, dtype=float).reshape(-1, 2))
+            obs["roundtrip"] = NPArr(np.asarray(back, dtype=float).reshape(-1, 2))
+            k = min(32, len(pts))
+            sp = [(int(y), int(x)) if (mode == "int" and vals in ("int64", "pyint")) else (float(y), float(x))
+                  for y, x in pts[:k]]
+            obs["pix_a"] = [[int(x) for x in g.pixel_coordinates_2d_from(p)] for p in sp]
+            obs["snap"] = [[float(x) for x in g.scaled_coordinate_2d_to_scaled_at_pixel_centre_from(p)] for p in sp]
+        pix = large_pixels(case)
+        if len(pix):
+            pa = pix.tolist() if vals in ("pylist", "pyint") else pix.copy()
             if route == "util":
-                a = np.asarray(arr_of(case["pixels"], vals))
-                gs = geometry_util.grid_scaled_2d_slim_from(grid_pixels_2d_slim=a, **ukw)
+                gs = geometry_util.grid_scaled_2d_slim_from(grid_pixels_2d_slim=np.asarray(pa), **ukw)
                 rt = geometry_util.grid_pixels_2d_slim_from(grid_scaled_2d_slim=gs, **ukw)
             else:
-                gsg = g.grid_scaled_2d_from(grid_pixels_2d=qgrid(case["pixels"]))
+                gsg = g.grid_scaled_2d_from(grid_pixels_2d=qgrid(pa, len(pix)))
                 gs = gsg.array
                 rt = g.grid_pixels_2d_from(grid_scaled_2d=gsg).array
-            obs["grid_scaled"] = pairs_q(gs)
-            obs["roundtrip_p"] = pairs_q(rt)
+            obs["grid_scaled"] = NPArr(np.asarray(gs, dtype=float).reshape(-1, 2))
+            obs["roundtrip_p"] = NPArr(np.asarray(rt, dtype=float).reshape(-1, 2))
+            k = min(32, len(pix))
+            obs["scaled"] = [[float(x) for x in g.scaled_coordinates_2d_from((float(y), float(x_)))]
+                             for y, x_ in pix[:k]]
         return obs
 
-    def _impl_grid(self, aa, case):
-        from autoarray.structures.grids import grid_2d_util
-
-        mj = case["mask"]
-        H, W = mj["h"], mj["w"]
-        bits2d = [[mj["bits"][y * W + x] == "1" for x in range(W)] for y in range(H)]
-        v, sc, sc_t, okw = self._geometry_args(case)
-        org_t = tuple(okw["origin"]) if okw else (0.0, 0.0)
-        mask = aa.Mask2D(mask=mask_arg(bits2d, v.get("mask_arg", "ndarray")), pixel_scales=sc, **okw)
-        return {
-            "from_mask": pairs_q(aa.Grid2D.from_mask(mask=mask).array),
-            "unmasked": pairs_q(mask.derive_grid.unmasked.array),
-            "all_false": pairs_q(mask.derive_grid.all_false.array),
-            "uniform": pairs_q(aa.Grid2D.uniform(shape_native=seq_of((H, W), v.get("seq", "tuple")),
-                                                 pixel_scales=sc, **okw).array),
-            "util": pairs_q(grid_2d_util.grid_2d_slim_via_mask_from(
-                mask_2d=np.array(bits2d, dtype=bool), pixel_scales=sc_t, origin=org_t)),
-        }
-
-    def _impl_grid1d(self, aa, case):
-        from autoarray.geometry import geometry_util
-
-        bits = case["bits"]
-        n = len(bits)
-        v = case.get("variant", {})
-        pm, pseq = v.get("params", "float"), v.get("point_seq", "tuple")
-        s, o = num(case["scale"], pm), num(case["origin"], pm)
-        marg = v.get("mask_arg", "ndarray")
-        m = [c == "1" for c in bits]
-        m = m if marg == "list" else [int(b) for b in m] if marg == "int_list" else np.array(m, dtype=bool)
-        okw = {} if (v.get("omit_defaults") and F(case["origin"]) == 0) else {"origin": (o,)}
-        sc = float(F(case["scale"])) if v.get("scalar_scales") else (s,)
-        m1 = aa.Mask1D(mask=m, pixel_scales=sc, **okw)
-        ipm = "int" if v.get("vals") in ("int64", "pyint") else "float"
-        obs = {
-            "extent": qlist(m1.geometry.extent),
-            "uniform": qlist(np.asarray(aa.Grid1D.uniform(shape_native=(n,), pixel_scales=sc, **okw).array)),
-            "pix": [int(geometry_util.pixel_coordinates_1d_from(
-                scaled_coordinates_1d=seq_of([num(p, ipm)], pseq), shape_slim=(n,), pixel_scales=(s,),
-                origins=(o,))[0]) for p in case["points"]],
-            "scaled": qlist([geometry_util.scaled_coordinates_1d_from(
-                pixel_coordinates_1d=seq_of([num(p, ipm)], pseq), shape_slim=(n,), pixel_scales=(s,),
-                origins=(o,))[0] for p in case["pixels"]]),
-            "grid": qlist(np.asarray(aa.Grid1D.from_mask(mask=m1).array)),
-        }
-        return obs
-
-    def _impl_shape(self, aa, case):
-        from autoarray.mask import mask_2d_util
-
+    @staticmethod
+    def _large_rt_pixels(case):
+        """flattened indices of the pixels whose centre -> index round trip a large geometry case observes: all of
+        them up to 40000 pixels, else the four corners plus a seeded sample of 20000"""
         H, W = case["shape"]
-        v, sc, sc_t, okw = self._geometry_args(case)
-        pm, sq = v.get("params", "float"), v.get("seq", "tuple")
-        cen_t = tuple(num(x, pm) for x in case["centre"])
-        kw = dict(shape_native=seq_of((H, W), sq), pixel_scales=sc, **okw)
-        if not (v.get("omit_defaults") and all(F(x) == 0 for x in case["centre"])):
-            kw["centre"] = seq_of(cen_t, sq)
-        if v.get("explicit_flags"):
-            kw["invert"] = False
-        ukw = dict(shape_native=(H, W), pixel_scales=sc_t, centre=cen_t)
-        ctor = case["ctor"]
-        g = lambda k: num(case[k], pm)
-        if ctor == "circular":
-            m = aa.Mask2D.circular(radius=g("radius"), **kw)
-            u = mask_2d_util.mask_2d_circular_from(radius=g("radius"), **ukw)
-        elif ctor == "annular":
-            m = aa.Mask2D.circular_annular(inner_radius=g("inner"), outer_radius=g("outer"), **kw)
-            u = mask_2d_util.mask_2d_circular_annular_from(inner_radius=g("inner"), outer_radius=g("outer"), **ukw)
-        elif ctor == "anti_annular":
-            m = aa.Mask2D.circular_anti_annular(inner_radius=g("inner"), outer_radius=g("outer"),
-                                                outer_radius_2=g("outer2"), **kw)
-            u = mask_2d_util.mask_2d_circular_anti_annular_from(
-                inner_radius=g("inner"), outer_radius=g("outer"), outer_radius_2_scaled=g("outer2"), **ukw)
-        elif ctor == "elliptical":
-            m = aa.Mask2D.elliptical(major_axis_radius=g("major"), axis_ratio=g("axis_ratio"),
-                                     angle=g("angle"), **kw)
-            u = mask_2d_util.mask_2d_elliptical_from(major_axis_radius=g("major"), axis_ratio=g("axis_ratio"),
-                                                     angle=g("angle"), **ukw)
-        else:
-            ek = dict(inner_major_axis_radius=g("inner_major"), inner_axis_ratio=g("inner_axis_ratio"),
-                      inner_phi=g("inner_phi"), outer_major_axis_radius=g("outer_major"),
-                      outer_axis_ratio=g("outer_axis_ratio"), outer_phi=g("outer_phi"))
-            m = aa.Mask2D.elliptical_annular(**ek, **kw)
-            u = mask_2d_util.mask_2d_elliptical_annular_from(**ek, **ukw)
-        return {"mask": mask_json(np.asarray(m, dtype=bool)), "util_mask": mask_json(np.asarray(u, dtype=bool)),
-                "origin": qlist(m.origin), "scales": qlist(m.pixel_scales)}
+        n = H * W
+        if n <= 40000:
+            return np.arange(n)
+        rs = _rs(case["points_gen"]["seed"] + 7)
+        return np.unique(np.concatenate([[0, W - 1, n - W, n - 1], rs.randint(0, n, 20000)]))
 
     # ------------------------------------------------------------------ model
     def model_requests(self, case, impl_obs):
         kind = case["kind"]
+        if kind == "history":  # every step is compared with the model of a FRESH object in that step's state
+            return [r for st in case["steps"] for r in self.model_requests(st["case"], None)]
+        if case.get("large"):
+            return []  # oracle-only: the vectorised oracle judges the implementation's output directly
         if kind == "geom":
             base = {"shape": case["shape"], "scales": case["scales"], "origin": case["origin"]}
             return [
@@ -652,6 +1752,13 @@ class C02(PropertyCheck):
         return [req]
 
     def model_obs(self, case, responses):
+        if case["kind"] == "history":
+            out, k = [], 0
+            for st in case["steps"]:
+                n = len(self.model_requests(st["case"], None))
+                out.append(self.model_obs(st["case"], responses[k:k + n]))
+                k += n
+            return {"steps": out}
         for r in responses:
             if "err" in r:
                 return {"err": r["err"]}
@@ -679,6 +1786,12 @@ class C02(PropertyCheck):
         if "err" in impl_obs or "err" in model_obs:
             return cmp.diff(impl_obs, model_obs)
         kind = case["kind"]
+        if kind == "history":
+            for k, st in enumerate(case["steps"]):
+                d = self.compare(st["case"], impl_obs["steps"][k], model_obs["steps"][k], cmp)
+                if d:
+                    return f"history step {k + 1}/{len(case['steps'])}: {d}"
+            return None
         if kind == "geom":
             mo = {k: v for k, v in model_obs.items() if not k.startswith("_")}
             io = dict(impl_obs)
@@ -699,7 +1812,9 @@ class C02(PropertyCheck):
         if kind == "shape":
             band = self._shape_band(case)
             mb = model_obs["mask"]["bits"]
-            hide = lambda bits: "".join("?" if f else c for f, c in zip(band, bits))
+            # "b" prefix: an all-digit bit string must be compared literally (Cmp would read it as one big integer
+            # and apply the relative tolerance to it)
+            hide = lambda bits: "b" + "".join("?" if f else c for f, c in zip(band, bits))
             io, mo = dict(impl_obs), {"origin": model_obs["origin"], "scales": model_obs["scales"]}
             for key in ("mask", "util_mask"):
                 if key not in impl_obs:
@@ -715,17 +1830,22 @@ class C02(PropertyCheck):
     # ------------------------------------------------------------------ oracle (independent of the model)
     @staticmethod
     def _close(a, b, scale=1):
-        a, b = F(a), F(b)
+        a, b = fr(a), fr(b)
         return abs(a - b) <= BAND * max(1, abs(a), abs(b), scale)
 
-    def _shape_eval(self, case):
+    def _shape_eval_exact(self, case):
         """per pixel (row-major): (expected_unmasked, in_band) from the documented inequalities, stated
         on the offset (dy, dx) of the pixel centre — measured from the mask origin — from `centre`."""
         H, W = case["shape"]
-        sy, sx = (F(v) for v in case["scales"])
-        cy, cx = (F(v) for v in case["centre"])
+        sy, sx = (fr(v) for v in case["scales"])
+        cy, cx = (fr(v) for v in case["centre"])
         ctor = case["ctor"]
-        g = lambda k: F(case[k])
+        _gv = {}
+
+        def g(k):
+            if k not in _gv:
+                _gv[k] = fr(case[k])
+            return _gv[k]
 
         def cmp_sqrt(d2, r):
             """sign of sqrt(d2) - r, 0 inside the tie band"""
@@ -736,8 +1856,12 @@ class C02(PropertyCheck):
                 return 1
             return -1 if d2 <= r * r else 1
 
+        _cs = {}
+
         def ell(dx, dy, cs, qq):
-            c, s = F(cs[0]), F(cs[1])
+            if id(cs) not in _cs:
+                _cs[id(cs)] = (fr(cs[0]), fr(cs[1]))
+            c, s = _cs[id(cs)]
             xe = dx * c + dy * s
             ye = (-dx * s + dy * c) / qq
             return xe * xe + ye * ye
@@ -769,10 +1893,28 @@ class C02(PropertyCheck):
     def _shape_band(self, case):
         return [b for _, b in self._shape_eval(case)]
 
+    _ev_memo = (None, None)
+
+    def _shape_eval(self, case):
+        """memo of the last case (the runner evaluates oracle and compare of one case back to back)"""
+        if self._ev_memo[0] is not case:
+            self._ev_memo = (case, self._shape_eval_exact(case))
+        return self._ev_memo[1]
+
     def oracle(self, case, obs):
         if isinstance(obs, dict) and "err" in obs:
             return False, f"implementation raised {obs}"
         kind = case["kind"]
+        if kind == "history":
+            n = len(case["steps"])
+            for k, st in enumerate(case["steps"]):
+                ok, d = self.oracle(st["case"], obs["steps"][k])
+                if not ok:
+                    return False, (f"history step {k + 1}/{n} (after {self._history_desc(case, k)}): {d} -- a freshly "
+                                   f"built object in this step's state satisfies the property")
+            return True, ""
+        if case.get("large") and kind != "shape":
+            return self._oracle_large(case, obs)
         if kind == "geom":
             return self._oracle_geom(case, obs)
         if kind == "grid":
@@ -807,8 +1949,8 @@ class C02(PropertyCheck):
                 return False, f"1-D extent {obs['extent']} is not the union of the pixel intervals"
             for p, got in zip(case["points"], obs["pix"]):
                 t = (F(p) - (o - n * s / 2)) / s
-                if near_integer(t):
-                    continue
+                if near_integer(t) or not 0 < t < n:
+                    continue  # tie band / outside the extent: the property does not speak
                 if got != math.floor(t):
                     return False, f"1-D coordinate {fl(p)} lies in pixel {math.floor(t)} but converts to {got}"
             for p, got in zip(case["pixels"], obs["scaled"]):
@@ -823,13 +1965,28 @@ class C02(PropertyCheck):
             return False, f"mask origin {obs['origin']} != requested {case['origin']}"
         if [F(v) for v in obs["scales"]] != [F(v) for v in case["scales"]]:
             return False, f"mask pixel_scales {obs['scales']} != requested {case['scales']}"
-        ev = self._shape_eval(case)
+        big = H * W > 400
+        ev = [] if big else self._shape_eval(case)
+        if big:
+            unm_np, band_np = self._shape_eval_np(case)
         for key in ("mask", "util_mask"):
             if key not in obs:
                 continue
             if obs[key]["h"] != H or obs[key]["w"] != W:
                 return False, f"{key} has the wrong shape"
             bits = obs[key]["bits"]
+            if big:
+                if len(bits) != H * W:
+                    return False, f"{key} has the wrong number of pixels"
+                got_unm = np.frombuffer(bits.encode(), dtype="S1") == b"0"
+                bad = (~band_np) & (got_unm != unm_np)
+                if bad.any():
+                    k = int(np.argmax(bad))
+                    return False, (f"{case['ctor']} ({key}): pixel ({k // W},{k % W}) is "
+                                   f"{'unmasked' if bits[k] == '0' else 'masked'} but its centre "
+                                   f"{'satisfies' if unm_np[k] else 'violates'} the radial inequality "
+                                   f"({int(bad.sum())} of {H * W} pixels wrong)")
+                continue
             for k, (unm, band) in enumerate(ev):
                 if band:
                     continue
@@ -837,6 +1994,219 @@ class C02(PropertyCheck):
                     return False, (f"{case['ctor']} ({key}): pixel ({k // W},{k % W}) is "
                                    f"{'unmasked' if bits[k] == '0' else 'masked'} but its centre "
                                    f"{'satisfies' if unm else 'violates'} the radial inequality")
+        return True, ""
+
+    @staticmethod
+    def _history_desc(case, k):
+        """what happened to the reused objects before step k (0-based) — for the oracle's message"""
+        if k == 0:
+            o = case["steps"][0].get("opts") or {}
+            return "decoy reads" if o.get("decoy") else "nothing"
+        parts = []
+        for st in case["steps"][1:k + 1]:
+            o = st.get("opts") or {}
+            bit = st.get("what", "step")
+            if o.get("faults"):
+                bit += f" + failed call {list(o['faults'])}"
+            if o.get("reuse"):
+                bit += f" reusing {list(o['reuse'])}"
+            parts.append(bit)
+        return "; then ".join(parts)
+
+    def _shape_eval_np(self, case):
+        """vectorised twin of `_shape_eval` for big frames: (expected_unmasked, in_band), flattened row-major.  Offsets
+        are exact doubles (dyadic inputs); outside the 1e-9 band the double comparison decides as the exact one."""
+        H, W = case["shape"]
+        sy, sx = (fl(v) for v in case["scales"])
+        cy, cx = (fl(v) for v in case["centre"])
+        ii = np.arange(H, dtype=float)[:, None]
+        jj = np.arange(W, dtype=float)[None, :]
+        dy = (((H - 1) / 2 - ii) * sy - cy) + 0.0 * jj
+        dx = ((jj - (W - 1) / 2) * sx - cx) + 0.0 * ii
+        ctor = case["ctor"]
+        g = lambda k: fl(case[k])
+
+        def sgn(d2, r):
+            """sign of sqrt(d2) - r, 0 inside the tie band"""
+            f = np.sqrt(d2)
+            band = np.abs(f - r) <= FBAND * max(1.0, abs(r))
+            s = np.where(f <= r, -1, 1) if r >= 0 else np.ones(f.shape, dtype=int)
+            return np.where(band, 0, s)
+
+        def ell(cs, qq):
+            c, s = fl(cs[0]), fl(cs[1])
+            xe = dx * c + dy * s
+            ye = (-dx * s + dy * c) / qq
+            return xe * xe + ye * ye
+
+        d2 = dx * dx + dy * dy
+        if ctor == "circular":
+            a = sgn(d2, g("radius"))
+            unm, band = a <= 0, a == 0
+        elif ctor == "annular":
+            a, b = sgn(d2, g("inner")), sgn(d2, g("outer"))
+            unm, band = (a >= 0) & (b <= 0), (a == 0) | (b == 0)
+        elif ctor == "anti_annular":
+            a, b, c = sgn(d2, g("inner")), sgn(d2, g("outer")), sgn(d2, g("outer2"))
+            unm, band = (a <= 0) | ((b >= 0) & (c <= 0)), (a == 0) | (b == 0) | (c == 0)
+        elif ctor == "elliptical":
+            a = sgn(ell(case["cs"], g("axis_ratio")), g("major"))
+            unm, band = a <= 0, a == 0
+        else:
+            a = sgn(ell(case["inner_cs"], g("inner_axis_ratio")), g("inner_major"))
+            b = sgn(ell(case["outer_cs"], g("outer_axis_ratio")), g("outer_major"))
+            unm, band = (a >= 0) & (b <= 0), (a == 0) | (b == 0)
+        return unm.ravel(), band.ravel()
+
+    def _oracle_large(self, case, obs):
+        """the property stated with numpy directly on the implementation's (large) outputs"""
+        kind = case["kind"]
+        cl = self._close
+        ff = lambda v: tuple(float(x) for x in np.ravel(v))
+
+        def first_bad(ok):
+            ok = np.asarray(ok)
+            if ok.ndim > 1:
+                ok = ok.all(axis=tuple(range(1, ok.ndim)))
+            return None if ok.all() else int(np.argmin(ok))
+
+        if kind == "grid1d":
+            g = case["bits_gen"]
+            n = g["n"]
+            m = large_mask({**g, "h": 1, "w": n})[0]
+            s, o = fl(case["scale"]), fl(case["origin"])
+            cen = o + (np.arange(n) - (n - 1) / 2) * s
+            for key, exp in (("grid", cen[~m]), ("uniform", cen)):
+                got = obs[key].a
+                if got.shape != exp.shape:
+                    return False, f"{key}: {got.shape[0]} coordinates for {exp.shape[0]} pixels"
+                k = first_bad(fclose(got, exp))
+                if k is not None:
+                    return False, f"1-D {key}[{k}] = {float(got[k])!r} but that pixel's centre is {float(exp[k])!r} (n={n})"
+            pts, pix = large_points_1d(case)
+            S, O = F(case["scale"]), F(case["origin"])
+            if not (cl(obs["extent"][0], O - n * S / 2) and cl(obs["extent"][1], O + n * S / 2)):
+                return False, f"1-D extent {obs['extent']} is not the union of the pixel intervals"
+            for p, got in zip(pts, obs["pix"]):
+                t = (F(p) - (O - n * S / 2)) / S
+                if near_integer(t) or not 0 < t < n:
+                    continue
+                if got != math.floor(t):
+                    return False, f"1-D coordinate {fl(p)} lies in pixel {math.floor(t)} but converts to {got}"
+            for p, got in zip(pix, obs["scaled"]):
+                e = O + (F(p) - F(n - 1, 2)) * S
+                if not cl(got, e):
+                    return False, f"1-D pixel coordinate {fl(p)} has scaled value {float(e)}, got {fl(got)}"
+            return True, ""
+
+        sy, sx = (fl(v) for v in case["scales"])
+        oy, ox = (fl(v) for v in case["origin"])
+        if kind == "grid":
+            m = large_mask(case["mask_gen"])
+            H, W = m.shape
+            ii, jj = np.divmod(np.arange(H * W), W)
+            allc = np.stack([oy + ((H - 1) / 2 - ii) * sy, ox + (jj - (W - 1) / 2) * sx], axis=1)
+            unm = allc[~m.ravel()]
+            for key, exp in (("from_mask", unm), ("unmasked", unm), ("util", unm), ("all_false", allc),
+                             ("uniform", allc)):
+                got = obs[key].a
+                if got.shape != exp.shape:
+                    return False, f"{key}: {got.shape[0]} coordinates for {exp.shape[0]} pixels ({H}x{W} frame)"
+                k = first_bad(fclose(got, exp))
+                if k is not None:
+                    return False, (f"{key}[{k}] = {ff(got[k])} but that pixel has centre {ff(exp[k])} "
+                                   f"({H}x{W} frame, {exp.shape[0]} coordinates)")
+            return True, ""
+
+        # geometry
+        H, W, SY, SX, OY, OX = geom_of(case)
+        exact = (OX - W * SX / 2, OX + W * SX / 2, OY - H * SY / 2, OY + H * SY / 2)
+        ext = obs["extent"]
+        if not all(cl(a, b) for a, b in zip(ext, exact)):
+            return False, f"extent {[fl(v) for v in ext]} != {[float(v) for v in exact]}"
+        if not (cl(obs["minima"][0], exact[2]) and cl(obs["minima"][1], exact[0])
+                and cl(obs["maxima"][0], exact[3]) and cl(obs["maxima"][1], exact[1])):
+            return False, "scaled_minima / scaled_maxima are not the corners of the extent"
+        if not (cl(obs["shape_scaled"][0], H * SY) and cl(obs["shape_scaled"][1], W * SX)):
+            return False, f"shape_native_scaled {obs['shape_scaled']} != (H s_y, W s_x)"
+        if not (cl(obs["central_pixel"][0], F(H - 1, 2)) and cl(obs["central_pixel"][1], F(W - 1, 2))):
+            return False, f"central pixel coordinates {obs['central_pixel']} != ((H-1)/2, (W-1)/2)"
+        ymax, xmin = oy + H * sy / 2, ox - W * sx / 2
+        if "grid" in obs:
+            got = obs["grid"].a
+            ii, jj = np.divmod(np.arange(H * W), W)
+            exp = np.stack([oy + ((H - 1) / 2 - ii) * sy, ox + (jj - (W - 1) / 2) * sx], axis=1)
+            if got.shape != exp.shape:
+                return False, "pixel-centre grid has the wrong length"
+            k = first_bad(fclose(got, exp))
+            if k is not None:
+                return False, (f"pixel ({k // W},{k % W}) has centre {ff(got[k])}, expected {ff(exp[k])} "
+                               f"({H}x{W} frame)")
+            union = (got[:, 1].min() - sx / 2, got[:, 1].max() + sx / 2, got[:, 0].min() - sy / 2,
+                     got[:, 0].max() + sy / 2)
+            if not all(cl(a, b) for a, b in zip(ext, union)):
+                return False, f"extent {[fl(v) for v in ext]} != union of pixel squares {ff(union)}"
+            ks = self._large_rt_pixels(case)
+            rt = obs["centre_roundtrip"].a
+            exp_rt = np.stack([ks // W, ks % W], axis=1)
+            if rt.shape != exp_rt.shape:
+                return False, "centre round trip has the wrong length"
+            k = first_bad(rt == exp_rt)
+            if k is not None:
+                return False, f"centre of pixel {exp_rt[k].tolist()} converts to index {rt[k].tolist()} ({H}x{W} frame)"
+        pts, _mode = large_points(case)
+        n = len(pts)
+        if n:
+            ty, tx = (ymax - pts[:, 0]) / sy, (pts[:, 1] - xmin) / sx
+            for key in ("centres", "pixels", "roundtrip"):
+                if obs[key].a.shape != (n, 2):
+                    return False, f"{key}: shape {obs[key].a.shape} for {n} coordinates"
+            if obs["indexes"].a.shape != (n,):
+                return False, f"indexes: shape {obs['indexes'].a.shape} for {n} coordinates"
+            k = first_bad(fclose(obs["pixels"].a, np.stack([ty, tx], axis=1)))
+            if k is not None:
+                return False, (f"continuous pixel coordinate of point #{k} {ff(pts[k])} is {ff(obs['pixels'].a[k])}, "
+                               f"expected {ff([ty[k], tx[k]])} ({n} points, {H}x{W} frame)")
+            k = first_bad(fclose(obs["roundtrip"].a, pts))
+            if k is not None:
+                return False, f"grid_scaled(grid_pixels(p)) != p at point #{k} {ff(pts[k])} ({n} points)"
+            near = lambda t: np.abs(t - np.round(t)) <= FBAND * np.maximum(1.0, np.abs(t))
+            ok = ~near(ty) & ~near(tx) & (ty > 0) & (ty < H) & (tx > 0) & (tx < W)
+            i, j = np.floor(ty).astype(np.int64), np.floor(tx).astype(np.int64)
+            cen = obs["centres"].a.astype(np.int64)
+            k = first_bad(~ok | ((cen[:, 0] == i) & (cen[:, 1] == j)))
+            if k is not None:
+                return False, (f"centres: point #{k} {ff(pts[k])} lies in the square of pixel ({i[k]},{j[k]}) but "
+                               f"converts to {cen[k].tolist()} ({n} points, {H}x{W} frame)")
+            idx = obs["indexes"].a.astype(np.int64)
+            k = first_bad(~ok | (idx == i * W + j))
+            if k is not None:
+                return False, (f"flattened index of point #{k} {ff(pts[k])} is {int(idx[k])}, expected "
+                               f"{int(i[k] * W + j[k])} ({n} points, {H}x{W} frame)")
+            for k in range(len(obs.get("pix_a", []))):
+                if not ok[k]:
+                    continue
+                if obs["pix_a"][k] != [int(i[k]), int(j[k])]:
+                    return False, f"pix_a: point {ff(pts[k])} lies in pixel ({i[k]},{j[k]}) but converts to {obs['pix_a'][k]}"
+                ey, ex = oy + ((H - 1) / 2 - i[k]) * sy, ox + (j[k] - (W - 1) / 2) * sx
+                if not fclose(obs["snap"][k], [ey, ex]).all():
+                    return False, f"point {ff(pts[k])} snaps to {obs['snap'][k]}, its pixel's centre is {ff([ey, ex])}"
+        pix = large_pixels(case)
+        if len(pix):
+            if obs["grid_scaled"].a.shape != pix.shape or obs["roundtrip_p"].a.shape != pix.shape:
+                return False, "pixel -> scaled conversion returns the wrong number of coordinates"
+            exp = np.stack([oy + ((H - 1) / 2 - (pix[:, 0] - 0.5)) * sy, ox + ((pix[:, 1] - 0.5) - (W - 1) / 2) * sx], axis=1)
+            k = first_bad(fclose(obs["grid_scaled"].a, exp))
+            if k is not None:
+                return False, (f"grid_scaled_2d_from{ff(pix[k])} = {ff(obs['grid_scaled'].a[k])}, expected "
+                               f"{ff(exp[k])} ({len(pix)} pixel coordinates)")
+            k = first_bad(fclose(obs["roundtrip_p"].a, pix))
+            if k is not None:
+                return False, f"grid_pixels(grid_scaled(q)) != q at {ff(pix[k])} ({len(pix)} pixel coordinates)"
+            for k in range(len(obs.get("scaled", []))):
+                e = [oy + ((H - 1) / 2 - pix[k][0]) * sy, ox + (pix[k][1] - (W - 1) / 2) * sx]
+                if not fclose(obs["scaled"][k], e).all():
+                    return False, f"scaled_coordinates_2d_from{ff(pix[k])} = {obs['scaled'][k]}, expected {ff(e)}"
         return True, ""
 
     def _oracle_geom(self, case, obs):
@@ -917,9 +2287,14 @@ class C02(PropertyCheck):
     # ------------------------------------------------------------------ misc
     def nontrivial(self, case, obs):
         kind = case["kind"]
+        if kind == "history":
+            return len(case["steps"]) >= 2 and any(
+                self.nontrivial(st["case"], o) for st, o in zip(case["steps"], obs["steps"]) if "err" not in o)
         if kind == "shape":
             b = obs["mask"]["bits"]
             return "0" in b and "1" in b
+        if case.get("large"):
+            return True
         if kind == "grid1d":
             return len(case["bits"]) >= 2
         if kind == "grid":
@@ -927,24 +2302,74 @@ class C02(PropertyCheck):
         return case["shape"][0] * case["shape"][1] >= 2 and not case.get("single_band_point")
 
     def shrink(self, case):
-        if case["kind"] == "geom":
+        kind = case["kind"]
+        if kind == "history":
+            steps = case["steps"]
+            if len(steps) > 1:
+                for k in range(len(steps)):  # drop one step (a step falls back to fresh objects when its
+                    yield {**case, "steps": steps[:k] + steps[k + 1:]}  # predecessor's are gone)
+            for k, st in enumerate(steps):
+                o = st.get("opts") or {}
+                for key in ("decoy", "scribble", "order", "faults", "edit_style"):
+                    if o.get(key):
+                        o2 = {a: b for a, b in o.items() if a != key}
+                        yield {**case, "steps": steps[:k] + [{**st, "opts": o2}] + steps[k + 1:]}
+            return
+        if case.get("large"):
+            # smaller frames / fewer points first (a size-gated failure refuses them), then plainer ingredients
+            def halves(n):
+                return [m for m in (n // 2, (3 * n) // 4) if 1 <= m < n]
+            if kind in ("shape", "geom"):
+                H, W = case["shape"]
+                for h in halves(H):
+                    yield {**case, "shape": [h, W]}
+                for w in halves(W):
+                    yield {**case, "shape": [H, w]}
+            if kind == "geom":
+                for key in ("points_gen", "pixels_gen"):
+                    g = case[key]
+                    for m in ([0] if g["n"] else []) + halves(g["n"]):
+                        yield {**case, key: {**g, "n": m}}
+            if kind == "grid":
+                g = case["mask_gen"]
+                for h in halves(g["h"]):
+                    yield {**case, "mask_gen": {**g, "h": h}}
+                for w in halves(g["w"]):
+                    yield {**case, "mask_gen": {**g, "w": w}}
+                if g.get("style") != "all_false":
+                    yield {**case, "mask_gen": {**g, "style": "all_false"}}
+            if kind == "grid1d":
+                g = case["bits_gen"]
+                for m in halves(g["n"]):
+                    yield {**case, "bits_gen": {**g, "n": m}}
+            okey = "origin"
+            zero = "0" if kind == "grid1d" else ["0", "0"]
+            if case[okey] != zero:
+                yield {**case, okey: zero}
+            if kind == "shape" and case["centre"] != ["0", "0"]:
+                yield {**case, "centre": ["0", "0"]}
+            return
+        if kind == "geom":
             if len(case["points"]) + len(case["pixels"]) > 1:
                 for p in case["points"]:
                     yield {**case, "points": [p], "pixels": []}
                 for p in case["pixels"]:
                     yield {**case, "points": [], "pixels": [p]}
                 yield {**case, "points": [], "pixels": []}
-        elif case["kind"] == "shape":
+        elif kind == "shape":
             if case["origin"] != ["0", "0"]:
                 yield {**case, "origin": ["0", "0"]}
             if case["centre"] != ["0", "0"]:
                 yield {**case, "centre": ["0", "0"]}
 
     def sample_view(self, case):
+        # lossless (replays are rebuilt from it) and small: large cases are recipes (seeds + sizes), never arrays
         c = {k: v for k, v in case.items() if not k.startswith("_")}
         return c
 
     def theorems_for(self, case):
+        if case["kind"] == "history":
+            return sorted({t for st in case["steps"] for t in self.theorems_for(st["case"])})
         if case["kind"] == "shape":
             return {
                 "circular": ["C02.g_circular", "C02.g_circular_real"],
